@@ -18,50 +18,79 @@ from vlib.core import EPS32, EPS64, Facet, Skip, Violation
 
 PROPERTY = "C20"
 MANIFEST = {
-    "text": "Generated-input search (Hypothesis) over a data-driven table of 271 differentiable entry points: 16 transform "
+    "text": "Generated-input search (Hypothesis) over a data-driven table of 464 differentiable entry points: 16 transform "
             "classes x {__call__, grid call, disp, disp on another grid, inverse()(...), points, PointSetTransformer} w.r.t. their "
-            "torch.nn.Parameters (generic non-identity values) and w.r.t. the points; ImageTransformer of every class w.r.t. "
-            "parameters and image; grid_sample/sample_image/warp_image/Image.sample/ImageBatch.sample/SampleImage/sample_flow/"
-            "warp_points/warp_grid (and the FlowFields data API) w.r.t. data, coordinates, flow; expv/ExpFlow, compose_flows, "
-            "compose_svfs, lie_bracket, logv; cubic B-spline evaluation (both algorithms, derivatives, kernels) and subdivision; "
-            "spatial/flow derivatives (9 modes), jacobian_det/matrix, curl, divergence; Euler/quaternion/angle-axis conversions "
-            "and homogeneous helpers; Grid.transform_points(decimals=None)/vectors; 21 similarity/overlap losses and 9 "
-            "regularisers of losses.functional; D in {2,3}, grids <= 8 per axis, hash-noise inputs constructed away from "
-            "interpolation knots, clamping/reflection borders and |x| / Huber kinks. Oracle: <grad f, d> from "
-            "torch.autograd.grad of f = sum(w*out) (generated w) against the central difference along 3 generated directions; "
-            "float64 rule (h = 1e-6*scale, rel 1e-5) where the operation preserves float64, float32 rule (h = 1e-2*scale, rel "
-            "2e-2) where deepali computes in float32. Also: the output requires grad, gradients are finite, no leaf has an "
-            "identically zero gradient while a coarse central difference in that leaf is clearly non-zero (detach / rounding / "
-            "integer cast), the output is not locally constant in a leaf, a second forward/backward on the same module gives the "
-            "same gradient (fresh graph), autograd in-place errors are violations. Every entry is probed by a seed-independent "
-            "floor plus generated cases. Exploration, not proof.",
+            "torch.nn.Parameters (generic non-identity values) and w.r.t. the points; the same classes with parameters predicted by "
+            "a callable module (gradient w.r.t. the callable's own Parameters and its conditioning input), given as plain tensors "
+            "(constructor / data_()), and through a linked inverse created once (inverse(link=True), .inv, update_buffers); "
+            "SequentialTransform / MultiLevelTransform with non-rigid and nested members; GenericSpatialTransform (8 models x 8 affine "
+            "models; Parameters, dict, callable, linked inverse, flip_grid_coords); ImageTransformer of every class w.r.t. parameters "
+            "and image (target grid, source grid, align_centers, flip_coords); grid_sample/sample_image/warp_image /"
+            "Image.sample/ImageBatch.sample/SampleImage/AlignImage/TransformImage/sample_flow/warp_points/warp_grid (and the "
+            "FlowFields data API) w.r.t. data, coordinates, flow, transform tensor; expv/ExpFlow (and its inverse copies), "
+            "compose_flows, compose_svfs, lie_bracket, logv; cubic B-spline evaluation (both algorithms, derivatives, kernels) and "
+            "subdivision; spatial/flow derivatives (9 modes, order or explicit selection), jacobian_det/matrix/dict, curl/Curl, "
+            "divergence; Euler/quaternion/angle-axis conversions and homogeneous helpers; Grid.transform_points(decimals=None)/"
+            "vectors; every name of losses.functional.__all__ (24 similarity/overlap losses w.r.t. input AND target and, where "
+            "documented as multiplicative, the weights; 9 regularisers), every public loss class of deepali.losses (image, flow, "
+            "bspline, params, PatchwiseImageLoss) called as a module, ClosestPointDistance / LandmarkPointDistance / "
+            "closest_point_distances / distance_matrix w.r.t. the first and EVERY later point set (also a later set produced by a "
+            "transformation being optimised); the remaining differentiable functions of core.functional.__all__ (61 entries: "
+            "pooling, convolution w.r.t. data and kernel, cropping/padding, pyramids, resampling, normalisation with explicit "
+            "bounds, point maps, tensor/linear algebra helpers) and the layers of deepali.modules; D in {2,3}, grids <= 8 per axis, "
+            "hash-noise inputs constructed away from interpolation knots, clamping/reflection borders, |x| / Huber kinks, nearest-"
+            "neighbour ties and zero distances. Oracle: <grad f, d> from torch.autograd.grad of f = sum(w*out) (generated w) against "
+            "the central difference along 3 generated directions; float64 rule (h = 1e-6*scale, rel 1e-5) where the operation "
+            "preserves float64, float32 rule (h = 1e-2*scale, rel 2e-2) where deepali computes in float32. Also: the output requires "
+            "grad, gradients are finite, no leaf has an identically zero gradient while a coarse central difference in that leaf is "
+            "clearly non-zero (detach / rounding / integer cast), the output is not locally constant in a leaf, a second "
+            "forward/backward on the same module gives the same gradient (fresh graph), after an in-place step of the leaves (an "
+            "optimiser step) a third forward/backward gives the derivative at the NEW point (buffers recomputed), autograd in-place "
+            "errors are violations. Every entry is probed by a seed-independent floor plus generated cases; the self-test fails "
+            "(exit 2) when a public name of losses.functional, losses, core.functional, modules or spatial has neither an entry nor "
+            "a justified exclusion (EXCLUDED). Exploration, not proof.",
     "note": "Trusted: nothing of autograd - the reference is the finite difference of the same forward function, whose accuracy "
             "is established per direction by comparing steps h and h/2 and the extrapolated second difference (kink "
             "detector); unreliable directions are dropped and counted, cases without a reliable direction are skipped and "
             "counted. Forward values are not checked here (other properties do). Tolerance: rel*max(|ad|,|fd|) + "
             "8*eps(dtype)*sum|w*out|/h (round-off of the difference quotient). The checker is self-tested on a known-good "
-            "composite and on wrong-backward / detach / rounding / integer-cast / in-place / kink / NaN-gradient functions.",
+            "composite and module and on wrong-backward / detach / rounding / integer-cast / in-place / kink / NaN-gradient / "
+            "stale-after-step functions.",
     "technique": "property-based testing (Hypothesis) with a finite-difference derivative oracle over a data-driven table of entry points",
 }
 ASSUMPTIONS = [
     "inputs are generic (hash noise) and constructed >= 0.05 samples away from interpolation knots / clamping and reflection "
     "borders where the sampling coordinates are inputs; derived sampling positions (transformed grids, scaling-and-squaring "
     "iterates) are generic and protected by the h vs h/2 and second-difference reliability test",
-    "mi_loss/nmi_loss are called with explicit vmin/vmax/num_bins (with the defaults the bin centres are taken from the data "
-    "through .item(), so autograd differentiates another function than a finite difference perturbs; not a defect)",
-    "nearest-neighbour sampling and binarize=True are excluded (piecewise constant by definition)",
+    "mi_loss/nmi_loss (and the MI/NMI modules) are called with explicit vmin/vmax/num_bins (with the defaults the bin centres are "
+    "taken from the data through .item(), so autograd differentiates another function than a finite difference perturbs; not a "
+    "defect); for the same reason normalize_image and rescale are called with explicit bounds and data strictly inside them",
+    "nearest-neighbour sampling and binarize=True are excluded (piecewise constant by definition); masks are fixed positive "
+    "weights, differentiated only where the documentation calls them multiplicative weights (dice 'weight', wlcc_loss masks, "
+    "dot_channels/dot_batch 'weight', vectordot 'w', masked_loss 'mask')",
+    "closest-point distances: the second point set lies on jittered lattice sites (pairwise separation >= 0.8 units), every point "
+    "of the first set is one of them plus an offset of norm 0.1..0.3 units, so the nearest neighbour is unique with a margin >= 0.2 "
+    "units and no distance is zero; landmark distances: offsets of norm 0.1..0.5",
     "entries whose differentiated input moves interpolation positions are run in float64 only (module.double()); the float32 "
-    "rule is applied where deepali itself computes in float32 (ncc/lcc/wlcc/dice/tversky, disp() of linear transforms, "
-    "resampling on Grid objects) and to default float32 Parameters of linear transforms (smooth in their parameters); "
-    "disp(other grid) of the two stationary-velocity classes is not generated (float32 step would cross interpolation knots)",
+    "rule is applied where deepali itself computes in float32 (ncc/lcc/wlcc/dice/tversky, point set distances, grid_sample_mask, "
+    "disp() of linear transforms, resampling on Grid objects) and to default float32 Parameters of linear transforms (smooth in "
+    "their parameters); disp(other grid) of the two stationary-velocity classes is not generated (float32 step would cross "
+    "interpolation knots)",
     "grad_loss with an effective exponent q < 1 is not combined with mode forward/backward: the replicate-padded one-sided "
     "difference is identically zero at one border and x**q has an infinite slope there for every input (autograd returns NaN; "
     "recorded as an observation, not asserted)",
     "Grid.transform_points with its documented default decimals rounds (zero gradient by design): recorded, not asserted",
     "cases hitting defects owned by other properties are skipped and counted: tversky_loss TypeError (F11, C16), compose_flows / "
     "logv with N > 1 (F25, C13), elasticity_loss(mode='bspline') shape error (N17-1, C17)",
+    "forward limitations that are not gradient matters are generated around (reported, not asserted): PatchwiseImageLoss accepts a "
+    "mask only for single-channel volumes; TransformImage takes a 3-dimensional tensor for an unbatched 2D flow field, so linear "
+    "transforms are generated for D = 3 only; GenericSpatialTransform._data() has no 'shearing' entry, so 'K' is not generated with "
+    "callable parameters, and flip_grid_coords uses euler_rotation_angles (orders ZXZ / XZX only); denormalize_grid infers the size "
+    "from channels-last shapes only; gaussian_pyramid is called with min_size=2 (a grid axis reduced to one sample with "
+    "align_corners=True is a Grid.downsample matter); Pad / pad with a non-constant mode take no fill value",
     "the Image / ImageBatch / FlowFields tensor itself is the optimised leaf of the data-API entries (their constructors create a "
     "new leaf from a plain tensor, like torch.nn.Parameter)",
+    "rand_sample is made deterministic by a freshly seeded torch.Generator per call (differentiated w.r.t. the sampled data)",
 ]
 
 REL64, REL32 = 1e-5, 2e-2
@@ -259,6 +288,42 @@ def check_probe(entry: str, probe: Probe, key: int) -> dict:
                 raise Violation(f"second_backward_differs:{entry}",
                                 f"leaf {i}: gradient of a second forward/backward on the same module differs by "
                                 f"{float((a - b).abs().max()):.3g} (max |g| {m:.3g})")
+        # optimiser iteration 2: the leaves are changed in place (as an optimiser step does), then forward/backward on the
+        # same module again; the gradient must be the derivative at the NEW point (buffers recomputed from the parameters)
+        dirs = _directions(leaves, key + 1)
+        step = 0.03 * probe.scale
+        with torch.no_grad():
+            for leaf, di in zip(leaves, dirs[0]):
+                leaf.add_(step * di.to(leaf.dtype))
+        try:
+            out3 = _flat(probe.evaluate())
+            if not out3.requires_grad:
+                raise Violation(f"no_grad_path_after_step:{entry}", "forward after an in-place parameter step lost the graph")
+            g3 = _backward(entry, (w.to(out3.dtype) * out3).sum(), leaves)
+            g3 = [torch.zeros_like(p) if g is None else g.detach().clone() for g, p in zip(g3, leaves)]
+            F3 = _Eval(probe, w)
+            f03 = F3(0.0, dirs[1])
+            d = dirs[1]
+            ad = float(sum((g.double() * di).sum() for g, di in zip(g3, d)))
+            fp, fm, fp2, fm2 = F3(h, d), F3(-h, d), F3(h / 2, d), F3(-h / 2, d)
+            c1, c2 = (fp - fm) / (2 * h), (fp2 - fm2) / h
+            j1, j2 = (fp - 2 * f03 + fm) / h, (fp2 - 2 * f03 + fm2) / (h / 2)
+            floor = KNOISE * eps * fmag / h
+            tol = rel * max(abs(ad), abs(c1), abs(c2)) + floor
+            if abs(c1 - c2) <= tol and abs(2 * j2 - j1) <= tol + 4 * floor:
+                if abs(ad - c2) > tol:
+                    raise Violation(f"grad_mismatch_after_step:{entry}",
+                                    f"after an in-place step of {step:.3g} of the leaves: autograd {ad:.9g} vs central difference "
+                                    f"{c2:.9g} at the new point (tol {tol:.3g}); gradient at the first point along the same "
+                                    f"direction: {float(sum((g.double() * di).sum() for g, di in zip(grads, d))):.9g}")
+                worst = max(worst, abs(ad - c2) / tol)
+                labels.append("after_step=checked")
+            else:
+                labels.append("after_step=fd_unreliable")
+        finally:
+            with torch.no_grad():
+                for leaf, b in zip(leaves, F.base):
+                    leaf.copy_(b)
     return {"ratio": worst, "nontrivial": nontrivial, "labels": labels}
 
 
@@ -324,6 +389,16 @@ def selftest():
     z = torch.zeros(3, 4, dtype=torch.float64).requires_grad_(True)
     _expect("skip", lambda: check_probe("t", Probe([z], lambda: z.abs() + z, 1.0), 2))
     _expect("grad_nonfinite", lambda: check_probe("t", Probe([z], lambda: torch.where(z > 1, z.sqrt(), z * 0 + 1) * (z + 1), 1.0), 2))
+    p = torch.nn.Parameter(noise((3, 4), 7, 0.2, 1.0))
+    mod = _StaleAfterStep(p)
+    _expect("grad_mismatch_after_step", lambda: check_probe("t", Probe([p], mod, 1.0, stateful=True), 3))
+    good = torch.nn.Linear(4, 2).double()
+    xin = noise((3, 4), 8)
+    r = check_probe("good_module", Probe(list(good.parameters()), lambda: good(xin).tanh(), 1.0, stateful=True), 4)
+    assert "after_step=checked" in r["labels"], r
+    missing = uncovered_names()
+    assert not missing, ("public names without a C20 table entry or a justified exclusion (add an entry to the facet tables of "
+                         f"props/c20.py or a reason to EXCLUDED): {missing}")
 
 
 def _inplace_probe(x):
@@ -490,6 +565,8 @@ def build_transform(cls: str, grid, case):
               rotation=_elementary("euler", N, D, key, dt), translation=_elementary("translation", N, D, key, dt))
     elif cls in ("DisplacementFieldTransform", "StationaryVelocityFieldTransform"):
         kw = {"stride": case["stride"]} if case["stride"] != 1 else {}
+        if not case.get("resize", True):
+            kw["resize"] = False  # the buffered field keeps the size of the (strided) parameter grid
         if cls in SVF:
             kw.update(steps=case["steps"], scale=case["vscale"])
         t = T(grid, groups=N, params=True, **kw)
@@ -526,7 +603,7 @@ def transform_cases(draw, entry=None):
         "axes": draw(st.sampled_from(["world", "grid", "cube", "cube_corners"])),
         "to_axes": draw(st.sampled_from(["world", "grid", "cube", "cube_corners"])),
         "other": draw(st.booleans()), "batch_points": draw(st.booleans()),
-        "disp_grid": draw(st.sampled_from(["resized", "other_ac", "subdomain"])),
+        "disp_grid": draw(st.sampled_from(["resized", "other_ac", "subdomain"])), "resize": draw(st.sampled_from([True, True, False])),
     }
     if case["other"]:
         case["grid2"] = draw(small_grids(D))
@@ -627,6 +704,8 @@ def image_transformer_cases(draw, entry=None):
         "transpose": draw(st.booleans()), "order": draw(st.sampled_from([None, "XYZ", "ZXZ", "YXZ"])),
         "C": draw(st.integers(1, 2)), "padding": draw(st.sampled_from(["border", "zeros", "reflect", 0.5])),
         "source": draw(st.sampled_from(["same", "same", "other"])), "NI": draw(st.sampled_from(["N", "one"])),
+        "target": draw(st.sampled_from(["same", "same", "resized", "subdomain"])), "centers": draw(st.booleans()),
+        "flip_coords": draw(st.sampled_from([False, False, True])),
     }
     if case["source"] == "other":
         case["grid2"] = draw(small_grids(D))
@@ -648,10 +727,19 @@ def build_image_transformer_probe(case) -> Probe:
         source = make_grid(g2)
     else:
         source = grid
-    it = S.ImageTransformer(t, source=source, padding=case["padding"]).double()
+    tk = case.get("target", "same")
+    if tk == "resized":  # output sampled on a grid of another size of the same domain (vector fields are resized: grid=True)
+        target = grid.resize([n + 1 + (i % 2) for i, n in enumerate(g["size"])])
+    elif tk == "subdomain":  # another domain: same centre and orientation, fewer samples of 0.8 x the spacing
+        target = make_grid(dict(g, size=[max(3, n - 1 - (i % 2)) for i, n in enumerate(g["size"])], spacing=[0.8 * v for v in g["spacing"]]))
+    else:
+        target = None
+    kwt = dict(align_centers=bool(case.get("centers", False)), flip_coords=bool(case.get("flip_coords", False)))
+    it = S.ImageTransformer(t, target=target, source=source, padding=case["padding"], **kwt).double()
     N = case["N"] if case["NI"] == "N" else 1
     img = noise((N, case["C"]) + tuple(source.shape), case["key"] + 31, 0.0, 1.0)
-    labels = [f"D={case['D']}", f"T={cls}", f"wrt={wrt}", f"pad={case['padding']}", f"source={case['source']}"]
+    labels = [f"D={case['D']}", f"T={cls}", f"wrt={wrt}", f"pad={case['padding']}", f"source={case['source']}", f"target={tk}",
+              f"centers={kwt['align_centers']}", f"flip={kwt['flip_coords']}"]
     if wrt == "params":
         return Probe(list(t.parameters()), lambda: it(img), 0.3 if cls in LINEAR else case["amp"], stateful=True, labels=labels)
     x = _leaf(img)
@@ -681,6 +769,7 @@ def sampling_cases(draw, entry=None):
         "N": draw(st.integers(1, 2)), "C": draw(st.integers(1, 3)), "ac": draw(st.booleans()),
         "padding": draw(st.sampled_from(["border", "zeros", "reflect", 0.5, None])), "key": draw(st.integers(0, 10 ** 6)),
         "outside": draw(st.booleans()), "bcast": draw(st.sampled_from(["both", "data1", "grid1"])),
+        "mode": draw(st.sampled_from([None, None, "linear", "bilinear"])),
     }
 
 
@@ -698,8 +787,11 @@ def build_sampling_probe(case) -> Probe:
     NG = 1 if case["bcast"] == "grid1" else N  # batch size of the coordinates
     pad = case["padding"]
     kw = dict(align_corners=ac) if pad is None else dict(padding=pad, align_corners=ac)
+    smode = case.get("mode")  # explicit spelling of the (only differentiable) interpolation mode of grid_sample
+    if smode is not None and fn in ("grid_sample", "sample_image", "warp_image"):
+        kw["mode"] = smode
     oshape = tuple(case["oshape"])
-    labels = [f"D={D}", f"ac={ac}", f"pad={pad}", f"bcast={case['bcast']}", f"outside={case['outside']}"]
+    labels = [f"D={D}", f"ac={ac}", f"pad={pad}", f"bcast={case['bcast']}", f"outside={case['outside']}", f"mode={kw.get('mode')}"]
     data = noise((ND, C) + shape, key + 41, 0.0, 1.0)
     one = 2.0 / (min(size) - (1 if ac else 0))  # one sample in cube units (coarsest estimate)
 
@@ -831,6 +923,7 @@ def flow_cases(draw, entry=None):
         "mode": draw(st.sampled_from(FD_MODES)), "sigma": draw(st.sampled_from([None, None, 0.7, 1.0])),
         "order": draw(st.integers(1, 2)), "spacing": draw(st.sampled_from([None, "scalar", "vector"])),
         "stride": draw(st.sampled_from([1, 2])), "add_identity": draw(st.booleans()),
+        "which": draw(st.sampled_from([None, None, "first", "mixed"])), "padding": draw(st.sampled_from([None, "border", "zeros", "reflect"])),
     }
 
 
@@ -871,6 +964,9 @@ def build_flow_probe(case) -> Probe:
         kw = dict(steps=steps, align_corners=ac, inverse=entry.endswith("inverse"))
         if scale is not None:
             kw["scale"] = scale
+        if case.get("padding") is not None:
+            kw["padding"] = case["padding"]
+            labels.append(f"pad={case['padding']}")
         return Probe([f], lambda: U.expv(f, **kw), a, labels=labels)
     if entry.startswith("compose_flows"):
         wrt = entry.split(".")[1]
@@ -898,13 +994,15 @@ def build_flow_probe(case) -> Probe:
     if entry == "spatial_derivatives":
         kw, mode = _deriv_kwargs(case, D)
         d = _leaf(noise((N, case["C"]) + shape, key + 63, 0.0, 1.0))
-        labels += [f"mode={mode}", f"order={case['order']}", f"sigma={case['sigma']}"]
-        return Probe([d], lambda: U.spatial_derivatives(d, order=case["order"], **kw), 1.0, labels=labels)
+        labels += [f"mode={mode}", f"order={case['order']}", f"sigma={case['sigma']}", f"which={case.get('which')}"]
+        kw.update(_which_kwargs(case, D))
+        return Probe([d], lambda: U.spatial_derivatives(d, **kw), 1.0, labels=labels)
     if entry == "flow_derivatives":
         kw, mode = _deriv_kwargs(case, D)
         f = _leaf(u)
-        labels += [f"mode={mode}", f"order={case['order']}"]
-        return Probe([f], lambda: U.flow_derivatives(f, order=case["order"], **kw), a, labels=labels)
+        labels += [f"mode={mode}", f"order={case['order']}", f"which={case.get('which')}"]
+        kw.update(_which_kwargs(case, D))
+        return Probe([f], lambda: U.flow_derivatives(f, **kw), a, labels=labels)
     if entry in ("jacobian_det", "jacobian_matrix", "curl", "divergence"):
         kw, mode = _deriv_kwargs(case, D)
         f = _leaf(u)
@@ -926,6 +1024,16 @@ def build_flow_probe(case) -> Probe:
         f = _leaf(u)
         return Probe([f], lambda: getattr(U, entry)(f, align_corners=ac), a, labels=labels + [f"ac={ac}"])
     raise KeyError(entry)
+
+
+def _which_kwargs(case, D):
+    """Either all derivatives of the generated order, or an explicit selection (`which`)."""
+    w = case.get("which")
+    if w == "first":
+        return dict(which=["x", "y"][: 1 + case["key"] % 2])
+    if w == "mixed":
+        return dict(which=["y", "xx", "xy"] + (["yz"] if D == 3 else []))
+    return dict(order=case["order"])
 
 
 def _f25(fn, N):
@@ -1135,7 +1243,8 @@ def run_rotation(case):
 ELEMENTWISE = ["mse_loss", "ssd_loss", "mae_loss", "l1_loss", "huber_loss", "smooth_l1_loss"]
 SIM_ENTRIES = ELEMENTWISE + ["ncc_loss", "lcc_loss", "wlcc_loss", "mi_loss", "nmi_loss", "dice_score", "dice_loss", "tversky_index",
                              "tversky_index_with_logits", "tversky_loss", "tversky_loss_with_logits", "kld_loss",
-                             "balanced_binary_cross_entropy_with_logits", "focal_loss_with_logits", "label_smoothing"]
+                             "balanced_binary_cross_entropy_with_logits", "focal_loss_with_logits", "label_smoothing",
+                             "binary_cross_entropy_with_logits", "masked_loss", "reduce_loss"]
 
 
 @st.composite
@@ -1149,9 +1258,52 @@ def similarity_cases(draw, entry=None):
         "delta": draw(gen.qfloat(0.3, 1.0, 0.05)), "kernel": draw(st.sampled_from([3, 5, 7])),
         "bins": draw(st.sampled_from([8, 16, 32])), "alpha": draw(st.sampled_from([None, 0.3, 0.7])),
         "beta": draw(st.sampled_from([None, 0.4])), "gamma": draw(st.sampled_from([None, 1.0, 1.5])),
-        "normalize": draw(st.booleans()), "wrt": draw(st.sampled_from(["both", "input", "target"])),
+        "normalize": draw(st.booleans()), "wrt": draw(st.sampled_from(["both", "input", "target", "weights"])),
+        "norm_from": draw(st.sampled_from([None, "source", "both"])), "alt_name": draw(st.booleans()),
         "wmask": draw(st.sampled_from(["none", "mask", "source_target"])),
     }
+
+
+LOSS_MODULES = {  # public loss classes -> functional form whose input construction is reused
+    "Dice": "dice_loss", "NCC": "ncc_loss", "LCC": "lcc_loss", "WLCC": "wlcc_loss", "L1ImageLoss": "mae_loss",
+    "HuberImageLoss": "huber_loss", "SmoothL1ImageLoss": "smooth_l1_loss", "L2ImageLoss": "mse_loss", "SSD": "ssd_loss", "MI": "mi_loss",
+    "NMI": "nmi_loss", "GradLoss": "grad_loss", "Bending": "bending_loss", "Curvature": "curvature_loss", "Diffusion": "diffusion_loss",
+    "Divergence": "divergence_loss", "Elasticity": "elasticity_loss", "TotalVariation": "total_variation_loss",
+    "BSplineBending": "bspline_bending_loss"}
+_FORWARD_KW = ("mask", "source_mask", "target_mask")
+
+
+def _loss_class(name):
+    import deepali.losses as LM
+    import deepali.losses.flow as LF
+
+    return getattr(LM, name, None) or getattr(LF, name)
+
+
+def _loss_fn(case, name, kw):
+    """The functional form `name(*tensors, **kw)`, or - for a loss-module case - ONE instance of the module class
+    (constructor arguments from kw, mask arguments passed to forward) that is called on every evaluation."""
+    import deepali.losses.functional as L
+
+    cls = case.get("module")
+    if cls is None:
+        fn = getattr(L, name)
+        return lambda *a: fn(*a, **kw)
+    kw = dict(kw)
+    fwd = {k: kw.pop(k) for k in _FORWARD_KW if k in kw}
+    if "weight" in kw:
+        fwd["mask"] = kw.pop("weight")
+    image = name in SIM_ENTRIES
+    if image:
+        kw.pop("reduction", None)  # the image loss modules always reduce by the mean
+    if "norm_from" in kw:
+        src, tgt = kw.pop("norm_from")
+        kw.update(source=src, target=tgt)
+    if cls in ("HuberImageLoss", "SmoothL1ImageLoss") and case.get("alt_name"):  # documented alternative keyword
+        a, b = ("delta", "beta") if cls == "HuberImageLoss" else ("beta", "delta")
+        kw[b] = kw.pop(a)
+    mod = _loss_class(cls)(**kw)
+    return lambda *a: mod(*a, **fwd)
 
 
 def _posmask(shape, key):
@@ -1162,15 +1314,16 @@ def _posmask(shape, key):
 def build_similarity_probe(case) -> Probe:
     import deepali.losses.functional as L
 
-    entry, D, shape, key, N, C = case["entry"], case["D"], tuple(case["shape"]), case["key"], case["N"], case["C"]
+    entry, D, shape, key, N, C = case.get("fentry") or case["entry"], case["D"], tuple(case["shape"]), case["key"], case["N"], case["C"]
     full = (N, C) + shape
     red = case["reduction"]
     labels = [f"D={D}", f"red={red}", f"wrt={case['wrt']}"]
+    stateful = case.get("module") is not None
 
     def pick(x, y):
-        """Leaves according to `wrt`."""
-        xl = _leaf(x) if case["wrt"] in ("both", "input") else x
-        yl = _leaf(y) if case["wrt"] in ("both", "target") else y
+        """Leaves according to `wrt` ('weights' falls back to both where the entry has no differentiable weights)."""
+        xl = _leaf(x) if case["wrt"] in ("both", "input", "weights") else x
+        yl = _leaf(y) if case["wrt"] in ("both", "target", "weights") else y
         return xl, yl, [t for t in (xl, yl) if t.requires_grad]
 
     if entry in ELEMENTWISE:
@@ -1193,7 +1346,10 @@ def build_similarity_probe(case) -> Probe:
             kw["norm"] = case["norm"]
         labels.append(f"mask={case['mask']}")
         xl, yl, leaves = pick(x, y)
-        return Probe(leaves, lambda: getattr(L, entry)(xl, yl, **kw), 1.0, labels=labels)
+        if case.get("module") and case.get("norm_from") and "norm" not in kw:
+            kw["norm_from"] = (x, y) if case["norm_from"] == "both" else (x, None)
+        call = _loss_fn(case, entry, kw)
+        return Probe(leaves, lambda: call(xl, yl), 1.0, labels=labels, stateful=stateful)
     if entry in ("ncc_loss", "lcc_loss", "wlcc_loss"):
         x = noise(full, key + 106, 0.0, 1.0)
         y = 0.6 * x + 0.4 * noise(full, key + 107, 0.0, 1.0)
@@ -1201,8 +1357,11 @@ def build_similarity_probe(case) -> Probe:
         kw = dict(reduction=red)
         if entry != "ncc_loss":
             ks = max(k for k in (3, 5, 7) if k <= min(case["kernel"], min(shape)))
-            kw["kernel_size"] = ks
-            labels.append(f"kernel={ks}")
+            kw["kernel_size"] = ks if case["alpha"] is None else (ks,) + (3,) * (D - 1)  # scalar or (kx, ky[, kz])
+            labels.append(f"kernel={kw['kernel_size']}")
+        if entry == "lcc_loss" and case["mask"] is not None:  # ncc_loss rejects every mask (K6, C16)
+            kw["mask"] = _posmask((N, 1) + shape, key + 108)
+            labels.append(f"mask={case['mask']}")
         if entry == "wlcc_loss":
             if case["wmask"] == "mask":
                 kw["mask"] = _posmask((N, 1) + shape, key + 108)
@@ -1210,7 +1369,13 @@ def build_similarity_probe(case) -> Probe:
                 kw["source_mask"] = _posmask((N, 1) + shape, key + 108)
                 kw["target_mask"] = _posmask((N, 1) + shape, key + 109)
             labels.append(f"wmask={case['wmask']}")
-        return Probe(leaves, lambda: getattr(L, entry)(xl, yl, **kw), 1.0, labels=labels, abs_mag=1.0, rule="f32")  # the loss casts to float32
+            if case["wrt"] == "weights" and case["wmask"] != "none":  # documented as multiplicative weights
+                for k in ("mask", "source_mask", "target_mask"):
+                    if k in kw:
+                        kw[k] = _leaf(kw[k])
+                leaves = [kw[k] for k in ("mask", "source_mask", "target_mask") if k in kw]
+        call = _loss_fn(case, entry, kw)
+        return Probe(leaves, lambda: call(xl, yl), 1.0, labels=labels, abs_mag=1.0, rule="f32", stateful=stateful)  # casts to float32
     if entry in ("mi_loss", "nmi_loss"):
         x = noise((N, 1) + shape, key + 110, 0.0, 1.0)
         y = 0.5 * x + 0.5 * noise((N, 1) + shape, key + 111, 0.0, 1.0)
@@ -1219,14 +1384,19 @@ def build_similarity_probe(case) -> Probe:
         if case["mask"] is not None:
             kw["mask"] = _posmask((N, 1) + shape, key + 112)
         labels += [f"bins={case['bins']}", f"mask={case['mask']}"]
-        return Probe(leaves, lambda: getattr(L, entry)(xl, yl, **kw), 1.0, labels=labels)
+        call = _loss_fn(case, entry, kw)
+        return Probe(leaves, lambda: call(xl, yl), 1.0, labels=labels, stateful=stateful)
     if entry in ("dice_score", "dice_loss"):
         x, y = noise(full, key + 113, 0.05, 0.95), noise(full, key + 114, 0.05, 0.95)
         xl, yl, leaves = pick(x, y)
         kw = dict(reduction=red)
         if case["mask"] is not None:
             kw["weight"] = _posmask(full, key + 115)
-        return Probe(leaves, lambda: getattr(L, entry)(xl, yl, **kw), 1.0, labels=labels, abs_mag=1.0, rule="f32")  # the loss casts to float32
+            if case["wrt"] == "weights":  # 'weight': voxelwise multiplicative weights
+                kw["weight"] = _leaf(kw["weight"])
+                leaves = [kw["weight"]]
+        call = _loss_fn(case, entry, kw)
+        return Probe(leaves, lambda: call(xl, yl), 1.0, labels=labels, abs_mag=1.0, rule="f32", stateful=stateful)  # casts to float32
     if entry.startswith("tversky"):
         logits = entry.endswith("with_logits") or case["normalize"]
         C2 = C if not entry.endswith("with_logits") else 1
@@ -1259,10 +1429,35 @@ def build_similarity_probe(case) -> Probe:
         kw = dict(reduction=red)
         if case["mask"] is not None:
             kw["weight"] = _posmask((N, 1) + shape, key + 122)
+        if entry == "focal_loss_with_logits":
+            if case["alpha"] is not None:
+                kw["alpha"] = case["alpha"]
+            if case["gamma"] is not None:
+                kw["gamma"] = case["gamma"]
+            labels += [f"alpha={case['alpha']}", f"gamma={case['gamma']}"]
         return Probe([x], lambda: getattr(L, entry)(x, y, **kw), 1.0, labels=labels)
     if entry == "label_smoothing":
         x = _leaf(noise((N, 3) + shape, key + 123, 0.05, 0.95))
         return Probe([x], lambda: L.label_smoothing(x, alpha=0.1), 1.0, labels=labels)
+    if entry == "binary_cross_entropy_with_logits":  # re-exported torch function
+        x, y = noise(full, key + 124, -2.0, 2.0), noise(full, key + 125, 0.05, 0.95)
+        xl, yl, leaves = pick(x, y)
+        kw = dict(reduction=red)
+        if case["mask"] is not None:
+            kw["weight"] = _posmask(full, key + 126)
+        return Probe(leaves, lambda: L.binary_cross_entropy_with_logits(xl, yl, **kw), 1.0, labels=labels)
+    if entry in ("masked_loss", "reduce_loss"):
+        # the mask is documented as a multiplicative factor: differentiated as a weight when wrt == 'weights'
+        x = noise(full, key + 127, 0.1, 1.0)
+        m = _posmask((N if case["mask"] != "channel" else 1, 1 if case["mask"] == "channel" else C) + shape, key + 128)
+        xl = _leaf(x)
+        if entry == "reduce_loss":
+            mk = None if case["mask"] is None else m
+            return Probe([xl], lambda: L.reduce_loss(xl * 1.0, reduction=red, mask=mk), 1.0, labels=labels + [f"mask={case['mask']}"])
+        ml = _leaf(m) if case["wrt"] == "weights" else m
+        inplace = case["normalize"]  # in-place multiplication of a fresh intermediate
+        leaves = [xl, ml] if ml.requires_grad else [xl]
+        return Probe(leaves, lambda: L.masked_loss(xl * 1.0, ml, inplace=inplace), 1.0, labels=labels + [f"inplace={inplace}"])
     raise KeyError(entry)
 
 
@@ -1300,9 +1495,10 @@ def regulariser_cases(draw, entry=None):
 def build_regulariser_probe(case) -> Probe:
     import deepali.losses.functional as L
 
-    entry, D, shape, key, N, a, red = (case["entry"], case["D"], tuple(case["shape"]), case["key"], case["N"], case["amp"],
-                                       case["reduction"])
+    entry, D, shape, key, N, a, red = (case.get("fentry") or case["entry"], case["D"], tuple(case["shape"]), case["key"], case["N"],
+                                       case["amp"], case["reduction"])
     labels = [f"D={D}", f"red={red}"]
+    stateful = case.get("module") is not None
     if entry == "inverse_consistency_loss":
         g = case["grid"]
         grid = make_grid(g)
@@ -1322,7 +1518,8 @@ def build_regulariser_probe(case) -> Probe:
     if entry == "bspline_bending_loss":
         u = _leaf(noise((N, D) + shape, key + 135, -a, a))
         st_ = case["stride"]
-        return Probe([u], lambda: L.bspline_bending_loss(u, stride=st_, reduction=red), a, labels=labels + [f"stride={st_}"])
+        call = _loss_fn(case, entry, dict(stride=st_, reduction=red))
+        return Probe([u], lambda: call(u), a, labels=labels + [f"stride={st_}"], stateful=stateful)
     kw, mode = _deriv_kwargs(case, D)
     kw["reduction"] = red
     labels.append(f"mode={mode}")
@@ -1348,7 +1545,8 @@ def build_regulariser_probe(case) -> Probe:
                 labels[-1] = "mode=central"
             kw.update(p=p, q=q)
             labels += [f"p={p}", f"q={q}"]
-        return Probe([u], lambda: getattr(L, entry)(u, **kw), 0.3, labels=labels)
+        call = _loss_fn(case, entry, kw)
+        return Probe([u], lambda: call(u), 0.3, labels=labels, stateful=stateful)
     u = _leaf(noise((N, D) + shape, key + 137, -a, a))
     if entry == "elasticity_loss":
         lame = case["lame"]
@@ -1357,22 +1555,1084 @@ def build_regulariser_probe(case) -> Probe:
         else:
             kw.update(first_parameter=lame[0], second_parameter=lame[1])
         labels.append(f"lame={lame}")
-    fn = getattr(L, entry)
+    fn = _loss_fn(case, entry, kw)
     if entry == "elasticity_loss" and mode == "bspline":
         def call():
             try:
-                return fn(u, **kw)
+                return fn(u)
             except RuntimeError as e:
                 if "must match the size of tensor" in str(e):
                     raise Skip("excluded_known N17-1 (C17): elasticity_loss(mode='bspline') allocates the input shape")
                 raise
 
-        return Probe([u], call, a, labels=labels)
-    return Probe([u], lambda: fn(u, **kw), a, labels=labels)
+        return Probe([u], call, a, labels=labels, stateful=stateful)
+    return Probe([u], lambda: fn(u), a, labels=labels, stateful=stateful)
 
 
 def run_regulariser(case):
     return check_probe(case["entry"], build_regulariser_probe(case), case["key"])
+
+
+# =======================================================================================
+# facet 8b: the loss MODULE classes (deepali.losses.*) wrapping the functional forms, and the parameter / patch losses
+
+PARAM_LOSSES = ["L1Norm", "L2Norm", "Sparsity"]
+LOSS_MODULE_ENTRIES = sorted(LOSS_MODULES) + PARAM_LOSSES + ["PatchwiseImageLoss"]
+
+
+@st.composite
+def loss_module_cases(draw, entry=None):
+    entry = entry or draw(st.sampled_from(LOSS_MODULE_ENTRIES))
+    if entry in LOSS_MODULES:
+        f = LOSS_MODULES[entry]
+        case = draw(similarity_cases(entry=f) if f in SIM_ENTRIES else regulariser_cases(entry=f))
+        case.update(entry=entry, fentry=f, module=entry)
+        if f in SIM_ENTRIES:
+            case["reduction"] = "mean"
+        return case
+    return {"entry": entry, "D": 3 if entry == "PatchwiseImageLoss" else draw(gen.dims()), "N": draw(st.integers(1, 2)),
+            "C": draw(st.integers(1, 2)), "key": draw(st.integers(0, 10 ** 6)), "shape": draw(small_shapes(3, 3, 5, 5)),
+            "pshape": draw(small_shapes(3, 1, 3, 3)), "scale": draw(st.sampled_from([None, 1.0, 1000.0])),
+            "inner": draw(st.sampled_from([None, "SSD", "L2ImageLoss", "L1ImageLoss", "NCC"])), "mask": draw(st.booleans()),
+            "wrt": draw(st.sampled_from(["both", "input", "target"])), "psize": draw(st.lists(st.integers(1, 5), min_size=1, max_size=3))}
+
+
+def build_loss_module_probe(case) -> Probe:
+    import deepali.losses as LM
+
+    entry, key, N = case["entry"], case["key"], case["N"]
+    if entry in LOSS_MODULES:
+        f = LOSS_MODULES[entry]
+        p = build_similarity_probe(case) if f in SIM_ENTRIES else build_regulariser_probe(case)
+        p.labels.append(f"module={entry}")
+        return p
+    C = case["C"]
+    if entry in PARAM_LOSSES:
+        shape = tuple(case["psize"])
+        mag = noise((N,) + shape, key + 161, 0.05, 1.0)  # |p| >= 0.05: away from the kink of abs()
+        x = _leaf(mag * torch.where(noise((N,) + shape, key + 162) < 0, -1.0, 1.0).double())
+        kw = {} if (case["scale"] is None or entry == "Sparsity") else dict(scale=case["scale"])
+        mod = getattr(LM, entry)(**kw)
+        return Probe([x], lambda: mod(x), 1.0, stateful=True, labels=[f"scale={case['scale']}"])
+    # PatchwiseImageLoss: 2D patches sampled within a 3D volume; source and target have the same shape
+    shape, psh = tuple(case["shape"]), tuple(case["pshape"])
+    inner = case["inner"]
+    if inner == "NCC":  # the correlation of a single sample is constant: patches of at least 2 x 2 samples
+        psh = (psh[0], max(2, psh[1]), max(2, psh[2]))
+    size = shape[::-1]
+    x = noise((N, C) + shape, key + 163, 0.0, 1.0)
+    y = 0.6 * x + 0.4 * noise((N, C) + shape, key + 164, 0.0, 1.0) + 0.3
+    patches = torch.tensor(index_to_cube(safe_index_coords((N,) + psh, size, key + 165), size, True), dtype=torch.float64)
+    mod = LM.PatchwiseImageLoss(patches) if inner is None else LM.PatchwiseImageLoss(patches, loss_fn=getattr(LM, inner)())
+    xl = _leaf(x) if case["wrt"] in ("both", "input") else x
+    yl = _leaf(y) if case["wrt"] in ("both", "target") else y
+    kw = {}
+    if case["mask"] and C == 1 and inner != "NCC":  # mask: shape of the target AND a single channel; NCC rejects masks (K6, C16)
+        kw["mask"] = torch.ones((N, C) + shape, dtype=torch.float64)
+    f32 = inner == "NCC"
+    return Probe([t for t in (xl, yl) if t.requires_grad], lambda: mod(xl, yl, **kw), 1.0, stateful=True,
+                 labels=[f"inner={inner}", f"wrt={case['wrt']}", f"mask={case['mask']}"], rule="f32" if f32 else None,
+                 abs_mag=1.0 if f32 else 0.0)
+
+
+def run_loss_module(case):
+    return check_probe(case["entry"], build_loss_module_probe(case), case["key"])
+
+
+# =======================================================================================
+# facet 9: point set distances w.r.t. EVERY point set argument (first and later ones)
+
+POINTSET_ENTRIES = ["ClosestPointDistance.x", "ClosestPointDistance.y", "ClosestPointDistance.all", "ClosestPointDistance.transformed",
+                    "LandmarkPointDistance.x", "LandmarkPointDistance.y", "LandmarkPointDistance.all", "LandmarkPointDistance.transformed",
+                    "closest_point_distances.x", "closest_point_distances.y", "distance_matrix.x", "distance_matrix.y",
+                    "distance_matrix.both"]
+
+
+@st.composite
+def pointset_cases(draw, entry=None):
+    entry = entry or draw(st.sampled_from(POINTSET_ENTRIES))
+    D = draw(gen.dims())
+    return {"entry": entry, "D": D, "N": draw(st.integers(1, 2)), "X": draw(st.integers(1, 6)), "extra": draw(st.integers(0, 4)),
+            "sets": draw(st.integers(1, 3)), "which": draw(st.integers(0, 2)), "key": draw(st.integers(0, 10 ** 6)),
+            "scale": draw(st.sampled_from([10.0, 1.0, 0.5])), "split": draw(st.sampled_from([None, 1, 2, 100000])),
+            "dtype": draw(st.sampled_from(["float64", "float32"])), "T": draw(st.sampled_from(["AffineTransform", "FreeFormDeformation",
+                                                                                             "Translation"]))}
+
+
+def lattice_points(N, Y, D, key, jitter=0.1):
+    """(N, Y, D) points on distinct sites of an integer lattice (generated order) plus a jitter: pairwise separation >= 1 - 2*jitter."""
+    side = int(math.ceil(Y ** (1.0 / D))) + 1
+    sites = np.stack(np.meshgrid(*[np.arange(side, dtype=np.float64)] * D, indexing="ij"), -1).reshape(-1, D)
+    out = np.empty((N, Y, D))
+    for n in range(N):
+        order = np.argsort(hash_noise((len(sites),), key * 3 + n, 0.0, 1.0), kind="stable")
+        out[n] = sites[order[:Y]]
+    return out + hash_noise((N, Y, D), key * 3 + 7, -jitter, jitter)
+
+
+def offset_vectors(shape, key, lo, hi):
+    """Vectors (..., D) of generated direction with Euclidean norm in [lo, hi]."""
+    v = hash_noise(tuple(shape), key, -1.0, 1.0)
+    v = v + np.where(np.abs(v).sum(-1, keepdims=True) < 0.1, 1.0, 0.0)
+    r = lo + (hi - lo) * hash_noise(tuple(shape[:-1]) + (1,), key + 1, 0.0, 1.0)
+    return v / np.linalg.norm(v, axis=-1, keepdims=True) * r
+
+
+def build_pointset_probe(case) -> Probe:
+    import deepali.losses as LM
+    from deepali.core import functional as U
+
+    entry, D, N, X, key = case["entry"], case["D"], case["N"], case["X"], case["key"]
+    fn, wrt = entry.split(".")
+    dt = torch.float64 if case["dtype"] == "float64" else torch.float32
+    labels = [f"D={D}", f"N={N}", case["dtype"]]
+    closest = fn in ("ClosestPointDistance", "closest_point_distances")
+    module = fn in ("ClosestPointDistance", "LandmarkPointDistance")
+    nsets = case["sets"] if module else 1
+    j = case["which"] % nsets  # argument position (among the later point sets) of the `base` set
+    Y = X + (case["extra"] if closest else 0)
+    base = lattice_points(N, Y, D, key + 141)  # pairwise separation >= 0.8
+    unit, t, src = 1.0, None, None
+    if wrt == "transformed":
+        # registration use: the point set in argument position j + 1 is the output of the transformation being optimised
+        tcase = {"N": 1, "key": key, "dtype": "float64", "amp": 0.2, "ffd_stride": 2, "transpose": False, "order": None}
+        grid = make_grid({"kind": "identity", "size": [5] * D, "spacing": [1.0] * D, "center": [0.0] * D, "ac": True,
+                          "rot": [0.0] * (1 if D == 2 else 3), "perm": list(range(D)), "flip": [1] * D})
+        t = build_transform(case["T"], grid, tcase)
+        side = int(math.ceil(Y ** (1.0 / D))) + 1
+        src = torch.tensor(base / side * 1.6 - 0.8, dtype=torch.float64)  # inside the cube of the transform
+        with torch.no_grad():
+            base = t(src).numpy().copy()
+        if Y > 1:
+            dist = np.linalg.norm(base[:, :, None] - base[:, None, :], axis=-1) + 1e9 * np.eye(Y)
+            unit = float(dist.min()) / 0.8
+        else:
+            unit = 0.3
+        labels.append(f"T={case['T']}")
+    # x: a point of `base` plus an offset of norm in [0.1, 0.3] units -> the nearest neighbour in `base` of each x is
+    # unique with a margin >= 0.2 units and no distance is zero (kink of the Euclidean norm)
+    if closest:
+        pick = np.stack([np.argsort(hash_noise((Y,), key * 5 + n, 0.0, 1.0), kind="stable")[:X] for n in range(N)])
+        xs = np.take_along_axis(base, pick[..., None], axis=1) + unit * offset_vectors((N, X, D), key + 142, 0.1, 0.3)
+    else:  # landmarks: one-to-one correspondence
+        xs = base + unit * offset_vectors((N, X, D), key + 142, 0.1, 0.5)
+    sets = []
+    for k in range(nsets):
+        if k == j:
+            sets.append(base)
+        elif closest:  # the same neighbour structure: a copy of `base` moved by < 0.07 units per point
+            sets.append(base + unit * hash_noise((N, Y, D), key + 150 + k, -0.04, 0.04))
+        else:
+            sets.append(xs + unit * offset_vectors((N, X, D), key + 150 + k, 0.1, 0.5))
+    x = torch.tensor(xs, dtype=dt)
+    ys = [torch.tensor(y, dtype=dt) for y in sets]
+    if module:
+        kw = dict(scale=case["scale"])
+        if closest and case["split"] is not None:
+            kw["split_size"] = case["split"]
+        mod = getattr(LM, fn)(**kw)
+        labels += [f"sets={nsets}", f"wrt={wrt}" + (f"[{j}]" if wrt in ("y", "transformed") else "")]
+        if wrt == "transformed":
+            def ev():
+                args = list(ys)
+                args[j] = t(src).to(dt)
+                return mod(x, *args)
+
+            return Probe(list(t.parameters()), ev, 0.3 if case["T"] != "FreeFormDeformation" else 0.2, stateful=True,
+                         labels=labels, rule="f32")
+        xl = _leaf(x) if wrt in ("x", "all") else x
+        yl = [(_leaf(y) if (wrt == "all" or (wrt == "y" and i == j)) else y) for i, y in enumerate(ys)]
+        leaves = [v for v in [xl] + yl if v.requires_grad]
+        return Probe(leaves, lambda: mod(xl, *yl), 1.0, stateful=True, labels=labels, rule="f32")
+    y = ys[0]
+    xl = _leaf(x) if wrt in ("x", "both") else x
+    yl = _leaf(y) if wrt in ("y", "both") else y
+    leaves = [v for v in (xl, yl) if v.requires_grad]
+    labels.append(f"wrt={wrt}")
+    if fn == "closest_point_distances":  # computes in float32 (x.float())
+        kw = {} if case["split"] is None else dict(split_size=case["split"])
+        return Probe(leaves, lambda: U.closest_point_distances(xl, yl, **kw), 1.0, labels=labels, rule="f32")
+    return Probe(leaves, lambda: U.distance_matrix(xl, yl), 1.0, labels=labels)
+
+
+def run_pointset(case):
+    return check_probe(case["entry"], build_pointset_probe(case), case["key"])
+
+
+# =======================================================================================
+# facet 10: the remaining differentiable functions of deepali.core.functional (completeness pass over __all__)
+
+CORE_ENTRIES = [
+    "abspow", "atanh", "batched_index_select", "max_difference.source", "max_difference.target", "move_dim", "as_tensor",
+    "as_float_tensor", "atleast_1d", "affine_rotation_matrix", "affine_transform_points.transforms", "affine_transform_points.points",
+    "affine_transform_vectors.transforms", "affine_transform_vectors.vectors", "apply_affine_transform", "as_homogeneous_matrix",
+    "as_homogeneous_tensor", "hmm", "homogeneous_matrix", "rotation_matrix", "tensordot", "vectordot", "vectordot.w", "vector_rotation", "avg_pool",
+    "max_pool", "min_pool", "conv.data", "conv.kernel", "conv1d.data", "conv1d.kernel", "crop", "pad", "center_crop", "center_pad",
+    "fill_border", "flatten_channels", "image_slice", "dot_batch", "dot_channels", "dot_channels.weight", "downsample", "upsample",
+    "gaussian_pyramid", "finite_differences", "grid_resample", "grid_resize", "normalize_image", "rescale", "rand_sample",
+    "grid_sample_mask.coords", "jacobian_dict", "normalize_grid", "denormalize_grid", "polyline_directions", "polyline_tangents",
+    "transform_grid.transform", "transform_grid.grid", "transform_points.transform", "transform_points.points", "bounding_box"]
+PAD_MODES = ["constant", "reflect", "replicate"]
+
+
+@st.composite
+def core_cases(draw, entry=None):
+    entry = entry or draw(st.sampled_from(CORE_ENTRIES))
+    D = draw(gen.dims())
+    return {"entry": entry, "D": D, "shape": draw(small_shapes(D, 4, 8, 6)), "N": draw(st.integers(1, 2)), "C": draw(st.integers(1, 2)),
+            "key": draw(st.integers(0, 10 ** 6)), "ac": draw(st.booleans()), "opt": draw(st.integers(0, 5)), "opt2": draw(st.integers(0, 3)),
+            "flag": draw(st.booleans()), "mode": draw(st.sampled_from(PAD_MODES)), "sigma": draw(st.sampled_from([None, 0, 0.7, 1.0])),
+            "margin": draw(st.lists(st.integers(-1, 2), min_size=D, max_size=D)), "ksize": draw(st.sampled_from([2, 3])),
+            "exponent": draw(st.sampled_from([1, 2, 3, 1.5, 0.5])), "order": draw(st.sampled_from(EULER_ORDERS)),
+            "fd": draw(st.sampled_from(["forward", "backward", "central", "forward_central_backward"])),
+            "tshape": draw(st.sampled_from(["translation", "affine", "homogeneous", "flow"])), "dtype": "float64"}
+
+
+def build_core_probe(case) -> Probe:
+    from deepali.core import functional as U
+
+    entry, D, shape, key, N, C = case["entry"], case["D"], tuple(case["shape"]), case["key"], case["N"], case["C"]
+    ac, opt, flag = case["ac"], case["opt"], case["flag"]
+    fn, _, wrt = entry.partition(".")
+    size = shape[::-1]
+    labels = [f"D={D}"]
+    f = getattr(U, fn)
+
+    def image(k=0, lo=0.0, hi=1.0, n=None, c=None):
+        return noise((N if n is None else n, C if c is None else c) + shape, key + 171 + k, lo, hi)
+
+    def matrix(k=0, cols=None, amp=0.3):
+        cols = D + 1 if cols is None else cols
+        return torch.eye(D, cols, dtype=torch.float64).unsqueeze(0).repeat(N, 1, 1) + noise((N, D, cols), key + 181 + k, -amp, amp)
+
+    def away(t, eps=0.05):  # values with |t| >= eps
+        return t + eps * torch.where(t < 0, -1.0, 1.0).to(t.dtype)
+
+    # ---- math / tensor helpers
+    if fn == "abspow":
+        x = _leaf(away(image(0, -1.0, 1.0)))
+        e = case["exponent"]
+        return Probe([x], lambda: f(x, e), 1.0, labels=labels + [f"exponent={e}"])
+    if fn == "atanh":
+        x = _leaf(image(0, -0.8, 0.8))
+        return Probe([x], lambda: f(x), 1.0, labels=labels)
+    if fn == "batched_index_select":
+        x = _leaf(image())
+        dim = 1 + opt % (D + 1)
+        n = x.shape[dim]
+        idx = torch.tensor(np.floor(hash_noise((N, 3), key + 172, 0.0, 1.0) * n).clip(0, n - 1), dtype=torch.int64)
+        return Probe([x], lambda: f(x, dim, idx), 1.0, labels=labels + [f"dim={dim}"])
+    if fn == "max_difference":
+        # piecewise linear in the extreme elements: unique extrema (gap >= 0.1), distinct ranges (no tie of the two candidates)
+        a, b = image(0, 0.2, 0.8), image(1, 0.2, 0.8) + 0.35
+        for t, k in ((a, 3), (b, 5)):
+            flat = t.reshape(-1)
+            i, j = (key + k) % flat.numel(), (key + 3 * k + 1) % flat.numel()
+            j = j if j != i else (j + 1) % flat.numel()
+            flat[i] -= 0.15 + float(flat[i] - flat.min())
+            flat[j] += 0.15 + float(flat.max() - flat[j])
+        same = flag and wrt == "source"
+        al = _leaf(a) if wrt == "source" else a
+        bl = _leaf(b) if wrt == "target" else b
+        return Probe([al if wrt == "source" else bl], lambda: f(al, al if same else bl), 1.0, labels=labels + [f"same={same}"])
+    if fn == "move_dim":
+        x = _leaf(image())
+        dim, pos = opt % x.ndim, case["opt2"] % x.ndim
+        return Probe([x], lambda: f(x, dim, pos) * 1.0, 1.0, labels=labels)
+    if fn in ("as_tensor", "as_float_tensor", "atleast_1d"):
+        x = _leaf(image())
+        if fn == "as_tensor" and flag:
+            return Probe([x], lambda: f(x, dtype=torch.float32) * 1.0, 1.0, labels=labels + ["to=float32"], rule="f32")
+        return Probe([x], lambda: f(x) * 1.0, 1.0, labels=labels)
+    # ---- homogeneous transforms
+    if fn == "affine_rotation_matrix":
+        m = torch.eye(3, 4 if flag else 3, dtype=torch.float64).unsqueeze(0).repeat(N, 1, 1)
+        m = _leaf(m + noise(tuple(m.shape), key + 182, -0.25, 0.25))
+        return Probe([m], lambda: f(m), 0.3, labels=labels + [f"cols={m.shape[-1]}"])
+    if fn in ("affine_transform_points", "affine_transform_vectors", "apply_affine_transform"):
+        cols = [1, D, D + 1][opt % 3]
+        if fn == "affine_transform_vectors" and cols == 1:
+            cols = D  # a pure translation does not act on vectors
+        m = matrix(0, cols) if cols > 1 else noise((N, D, 1), key + 183, -0.5, 0.5)
+        p = noise((N, 4, D), key + 184, -1.0, 1.0)
+        labels.append(f"cols={cols}")
+        if fn == "apply_affine_transform":
+            m, p = _leaf(m), _leaf(p)
+            vec = flag and cols > 1
+            return Probe([m, p], lambda: f(m, p, vectors=vec), 0.5, labels=labels + [f"vectors={vec}"])
+        if wrt == "transforms":
+            m = _leaf(m)
+            return Probe([m], lambda: f(m, p), 0.3, labels=labels)
+        p = _leaf(p)
+        return Probe([p], lambda: f(m, p), 1.0, labels=labels)
+    if fn in ("as_homogeneous_matrix", "as_homogeneous_tensor"):
+        cols = [1, D, D + 1][opt % 3]
+        m = _leaf(matrix(0, cols) if cols > 1 else noise((N, D, 1), key + 183, -0.5, 0.5))
+        if fn == "as_homogeneous_tensor":
+            return Probe([m], lambda: f(m)[0] * 1.0, 0.3, labels=labels + [f"cols={cols}"])
+        return Probe([m], lambda: f(m) * 1.0, 0.3, labels=labels + [f"cols={cols}"])
+    if fn == "hmm":
+        ca, cb = [1, D, D + 1][opt % 3], [1, D, D + 1][case["opt2"] % 3]
+        a = _leaf(matrix(0, ca) if ca > 1 else noise((N, D, 1), key + 183, -0.5, 0.5))
+        b = _leaf(matrix(1, cb) if cb > 1 else noise((N, D, 1), key + 185, -0.5, 0.5))
+        return Probe([a, b], lambda: f(a, b), 0.3, labels=labels + [f"cols={ca},{cb}"])
+    if fn == "homogeneous_matrix":
+        cols = [1, D, D + 1][opt % 3]
+        m = _leaf(matrix(0, cols) if cols > 1 else noise((N, D, 1), key + 183, -0.5, 0.5))
+        if flag:
+            off = _leaf(noise((N, D), key + 186, -0.5, 0.5))
+            return Probe([m, off], lambda: f(m, offset=off), 0.3, labels=labels + [f"cols={cols}", "offset"])
+        return Probe([m], lambda: f(m), 0.3, labels=labels + [f"cols={cols}"])
+    if fn == "rotation_matrix":  # alias of euler_rotation_matrix
+        a = _leaf(noise((N, 1 if D == 2 else 3), key + 187, -3.0, 3.0))
+        kw = {} if D == 2 else dict(order=case["order"])
+        return Probe([a], lambda: f(a, **kw), 1.0, labels=labels + [f"order={case['order']}"])
+    if fn == "tensordot":
+        a, b = _leaf(noise((2, 3, 4), key + 188)), _leaf(noise((3, 4, 2) if flag else (4, 3), key + 189))
+        dims = 2 if flag else 1
+        return Probe([a, b], lambda: f(a, b, dims=dims), 1.0, labels=labels + [f"dims={dims}"])
+    if fn == "vectordot":
+        a, b = _leaf(noise((N, 5, D), key + 188)), _leaf(noise((N, 5, D), key + 189))
+        dim = [-1, 1][opt % 2]
+        if wrt == "w":  # weights of the inner product
+            w = _leaf(noise((N, 5, D), key + 190, 0.2, 1.0))
+            a, b = a.detach(), b.detach()
+            return Probe([w], lambda: f(a, b, w=w, dim=dim), 1.0, labels=labels + [f"dim={dim}"])
+        return Probe([a, b], lambda: f(a, b, dim=dim), 1.0, labels=labels + [f"dim={dim}"])
+    if fn == "vector_rotation":
+        # generic non-parallel 3D vectors at an acute angle (asin of the norm of the cross product: kink at 90 degrees)
+        a = noise((N, 3), key + 188)
+        a = a + 0.3 * torch.where(a < 0, -1.0, 1.0).double()
+        b = a + noise((N, 3), key + 189, -0.4, 0.4).double() * a.norm(dim=-1, keepdim=True) * 0.5 + 0.05
+        a, b = _leaf(a), _leaf(b)
+        return Probe([a, b], lambda: f(a, b), 0.5, labels=labels)
+    # ---- images
+    x = image()
+    if fn in ("avg_pool", "max_pool", "min_pool"):
+        k = case["ksize"]
+        kw = dict(stride=[None, 1, 2][opt % 3], padding=(1 if (flag and k > 2) else 0))
+        if fn == "avg_pool":
+            kw.update(count_include_pad=case["opt2"] % 2 == 0, ceil_mode=case["opt2"] > 1)
+        x = _leaf(x)
+        return Probe([x], lambda: f(x, k, **kw), 1.0, labels=labels + [f"k={k}", f"stride={kw['stride']}"])
+    if fn in ("conv", "conv1d"):
+        k1 = noise((3,), key + 190, 0.1, 1.0)
+        pad = [None, "constant", "reflect", "replicate", 1, 0][opt]
+        if pad == "reflect" and D == 3 and fn == "conv":
+            pad = "replicate"  # PaddingMode.pad_mode: reflection padding is documented for 1 and 2 spatial dimensions only
+        if fn == "conv1d":
+            pad = [None, "zeros", "reflect", "replicate", 1, 0][opt]
+            dim = 2 + case["opt2"] % D
+            kw = dict(dim=dim, padding=pad)
+            if flag and pad in (None, 0, 1):
+                kw.update(stride=2, transpose=case["opt2"] > 1)
+            xl, kl = (_leaf(x), k1) if wrt == "data" else (x, _leaf(k1))
+            return Probe([xl if wrt == "data" else kl], lambda: f(xl, kl, **kw), 1.0, labels=labels + [f"pad={pad}", f"dim={dim}"])
+        kind = ["1d", "seq", "dense"][case["opt2"] % 3]
+        if kind == "1d":
+            kern = k1
+        elif kind == "seq":
+            kern = [k1] + [None if (flag and i == 1) else noise((3,), key + 191 + i, 0.1, 1.0) for i in range(1, D)]
+        else:
+            kern = noise((3,) * D, key + 192, 0.1, 1.0)
+        labels += [f"kernel={kind}", f"pad={pad}"]
+        if wrt == "data":
+            xl = _leaf(x)
+            return Probe([xl], lambda: f(xl, kern, padding=pad), 1.0, labels=labels)
+        if kind == "seq":
+            kern = [None if k is None else _leaf(k) for k in kern]
+            return Probe([k for k in kern if k is not None], lambda: f(x, kern, padding=pad), 1.0, labels=labels)
+        kern = _leaf(kern)
+        return Probe([kern], lambda: f(x, kern, padding=pad), 1.0, labels=labels)
+    if fn in ("crop", "pad"):
+        x = _leaf(x)
+        mode = case["mode"] if (D == 2 or case["mode"] != "reflect") else "replicate"
+        m = [abs(v) if (mode != "constant" and fn == "pad") else v for v in case["margin"]]
+        if fn == "crop":
+            m = [min(v, 1) for v in m]
+        kw = dict(mode=mode)
+        if mode == "constant":
+            kw["value"] = 0.5
+        if flag:  # (left, right) numbers per dimension
+            kw["num"] = [v for a in m for v in (a, max(a - 1, 0) if a > 0 else a)]
+        else:
+            kw["margin"] = m
+        return Probe([x], lambda: f(x, **kw), 1.0, labels=labels + [f"mode={mode}", "num" if flag else "margin"])
+    if fn in ("center_crop", "center_pad"):
+        x = _leaf(x)
+        new = [max(1, n - 1 - i) for i, n in enumerate(size)] if fn == "center_crop" else [n + 1 + i for i, n in enumerate(size)]
+        if fn == "center_crop":
+            return Probe([x], lambda: f(x, new), 1.0, labels=labels)
+        mode = case["mode"] if (D == 2 or case["mode"] != "reflect") else "replicate"
+        return Probe([x], lambda: f(x, new, mode=mode), 1.0, labels=labels + [f"mode={mode}"])
+    if fn == "fill_border":
+        x = _leaf(x)
+        return Probe([x], lambda: f(x * 1.0, 1, value=0.3, inplace=flag), 1.0, labels=labels + [f"inplace={flag}"])
+    if fn == "flatten_channels":
+        x = _leaf(x)
+        return Probe([x], lambda: f(x) * 1.0, 1.0, labels=labels + [f"N={N}", f"C={C}"])
+    if fn == "image_slice":
+        x = _leaf(x)
+        off = None if flag else opt % shape[0]
+        return Probe([x], lambda: f(x, off) * 1.0, 1.0, labels=labels)
+    if fn in ("dot_batch", "dot_channels"):
+        a, b = x, image(1)
+        w = _posmask((N, 1 if flag else C) + shape, key + 193)
+        if wrt == "weight":
+            w = _leaf(w)
+            return Probe([w], lambda: f(a, b, weight=w), 1.0, labels=labels)
+        a, b = _leaf(a), _leaf(b)
+        kw = dict(weight=w) if opt % 2 else {}
+        return Probe([a, b], lambda: f(a, b, **kw), 1.0, labels=labels + [f"weight={bool(opt % 2)}"])
+    if fn in ("downsample", "upsample", "gaussian_pyramid"):
+        x = _leaf(x)
+        kw = dict(align_corners=ac)
+        if case["sigma"] is not None:
+            kw["sigma"] = case["sigma"]
+        if flag:
+            kw["dims"] = [opt % D]
+        if case["opt2"] == 3 and D == 2 and not flag:
+            kw["mode"] = "bicubic"
+        if fn == "gaussian_pyramid":
+            kw["min_size"] = 2  # a grid axis reduced to one sample with align_corners=True is a Grid.downsample matter
+            return Probe([x], lambda: f(x, 2 + opt % 2, **kw), 1.0, labels=labels + [f"sigma={case['sigma']}", f"ac={ac}"])
+        return Probe([x], lambda: f(x, 1, **kw), 1.0, labels=labels + [f"sigma={case['sigma']}", f"ac={ac}"])
+    if fn == "finite_differences":
+        x = _leaf(x)
+        kw = dict(mode=case["fd"], dilation=1 + case["opt2"] % 2, spacing=[1, 0.5][opt % 2])
+        return Probe([x], lambda: f(x, opt % D, **kw), 1.0, labels=labels + [f"mode={case['fd']}"])
+    if fn == "grid_resample":
+        x = _leaf(x)
+        ins = [1.0 + 0.5 * i for i in range(D)] if flag else 1.0
+        outs = [0.7 + 0.4 * i for i in range(D)] if flag else [0.7, 1.3][opt % 2]
+        return Probe([x], lambda: f(x, ins, outs), 1.0, labels=labels)
+    if fn == "grid_resize":
+        x = _leaf(x)
+        new = [n + 1 - 2 * (i % 2) for i, n in enumerate(size)]
+        mode = ["linear", "linear", "bicubic" if D == 2 else "linear", "area"][case["opt2"]]
+        kw = dict(mode=mode) if mode == "area" else dict(mode=mode, align_corners=ac)
+        return Probe([x], lambda: f(x, new, **kw), 1.0, labels=labels + [f"ac={ac}", f"mode={mode}"])
+    if fn == "normalize_image":
+        # explicit bounds (the default takes them from the data through float(): another function than a finite difference
+        # perturbs); data strictly inside the clamping interval
+        x = _leaf(x)
+        mode = ["unit", "center", "zscore"][opt % 3]
+        kw = dict(min=-0.5, max=1.5) if mode != "zscore" else (dict(min=-10.0) if flag else dict(max=10.0))
+        return Probe([x], lambda: f(x, mode, **kw), 1.0, labels=labels + [f"mode={mode}"])
+    if fn == "rescale":
+        x = _leaf(x)
+        return Probe([x], lambda: f(x, -1.0, 3.0, data_min=-0.5, data_max=1.5), 1.0, labels=labels)
+    if fn == "rand_sample":  # deterministic given a freshly seeded generator per call
+        x = _leaf(x)
+        kw = dict(replacement=flag)
+        if opt % 2:
+            kw["mask"] = _posmask((N, 1) + shape, key + 194) > 0.4
+        return Probe([x], lambda: f(x, 5, generator=torch.Generator().manual_seed(key), **kw), 1.0, labels=labels)
+    if fn == "grid_sample_mask":  # linear interpolation of the binarised mask: differentiable in the coordinates only
+        m = image(0, 0.0, 1.0, c=1)
+        m = (m > 0.4) if flag else m
+        idx = safe_index_coords((N,) + (1,) * (D - 1) + (5,), size, key + 195)
+        g = _leaf(torch.tensor(index_to_cube(idx, size, ac), dtype=torch.float64))
+        one = 2.0 / (min(size) - (1 if ac else 0))
+        return Probe([g], lambda: f(m, g, threshold=0.4, align_corners=ac), one, labels=labels + [f"ac={ac}"], rule="f32")
+    if fn == "jacobian_dict":
+        u = _leaf(noise((N, D) + shape, key + 196, -0.3, 0.3))
+        mode = [None, "central", "forward", "bspline"][case["opt2"]]
+        kw = dict(add_identity=flag) if mode is None else dict(mode=mode, add_identity=flag)
+        return Probe([u], lambda: f(u, **kw), 0.3, labels=labels + [f"mode={mode}"])
+    if fn in ("normalize_grid", "denormalize_grid"):
+        if flag:  # points with explicit size
+            g = _leaf(noise((N, 5, D), key + 197, -1.0, 1.0) * (1.0 if fn == "denormalize_grid" else 4.0))
+            kw = dict(size=size, align_corners=ac, side_length=[2, 1][opt % 2])
+            return Probe([g], lambda: f(g, **kw), 1.0, labels=labels + ["points"])
+        cl = opt % 2 == 0
+        g = noise((N,) + shape + (D,), key + 197, -1.0, 1.0)
+        if not cl:
+            g = g.movedim(-1, 1).contiguous()
+        g = _leaf(g)
+        kw = dict(align_corners=ac, channels_last=cl)
+        if not cl:  # denormalize_grid infers the size from a channels-last shape only
+            kw["size"] = size
+        return Probe([g], lambda: f(g, **kw), 1.0, labels=labels + [f"channels_last={cl}"])
+    if fn in ("polyline_directions", "polyline_tangents"):
+        p = _leaf(torch.tensor(lattice_points(N, 5, 3, key + 198), dtype=torch.float64))  # distinct points: non-zero segments
+        kw = {"normalize": flag, ("repeat_last" if fn == "polyline_directions" else "repeat_first"): opt % 2 == 0}
+        return Probe([p], lambda: f(p, **kw), 1.0, labels=labels + [f"normalize={flag}"])
+    if fn in ("transform_grid", "transform_points"):
+        ts = case["tshape"]
+        if ts == "flow":
+            t = noise((N, D) + shape, key + 199, -0.3, 0.3)
+        else:
+            cols = {"translation": 1, "affine": D, "homogeneous": D + 1}[ts]
+            t = matrix(0, cols) if cols > 1 else noise((N, D, 1), key + 183, -0.5, 0.5)
+        if fn == "transform_grid":  # undeformed grid points of another size: the flow is resized, not sampled
+            from deepali.core import Grid
+
+            oshape = tuple(max(2, n - 1 - (i % 2)) for i, n in enumerate(shape))
+            p = Grid(shape=oshape, align_corners=ac).coords(align_corners=ac, dtype=torch.float64).unsqueeze(0)
+            one = 1.0
+        else:
+            p = torch.tensor(index_to_cube(safe_index_coords((N, 5), size, key + 200), size, ac), dtype=torch.float64)
+            one = 2.0 / (min(size) - (1 if ac else 0)) if ts == "flow" else 1.0
+        labels += [f"transform={ts}", f"ac={ac}"]
+        if wrt == "transform":
+            t = _leaf(t)
+            return Probe([t], lambda: f(t, p, align_corners=ac), 0.3, labels=labels)
+        p = _leaf(p)
+        return Probe([p], lambda: f(t, p, align_corners=ac), one, labels=labels)
+    if fn == "bounding_box":
+        p = _leaf(torch.tensor(lattice_points(1, 6, D, key + 201, jitter=0.3)[0], dtype=torch.float64))
+        return Probe([p], lambda: f(p), 1.0, labels=labels)
+    raise KeyError(entry)
+
+
+def run_core(case):
+    return check_probe(case["entry"], build_core_probe(case), case["key"])
+
+
+# =======================================================================================
+# facet 11: the remaining layers of deepali.modules (module wrappers of the functional forms)
+
+MODULE_ENTRIES = ["AlignImage.transform", "AlignImage.data", "TransformImage.transform", "TransformImage.data", "BlurImage", "FilterImage",
+                  "GaussianConv", "Curl", "Pad", "Narrow", "Reshape", "View", "LambdaLayer", "GetItem", "ExpFlow.inverse"]
+
+
+@st.composite
+def module_cases(draw, entry=None):
+    entry = entry or draw(st.sampled_from(MODULE_ENTRIES))
+    D = 3 if entry == "Curl" and draw(st.booleans()) else draw(gen.dims())
+    case = {"entry": entry, "D": D, "N": draw(st.integers(1, 2)), "C": draw(st.integers(1, 2)), "key": draw(st.integers(0, 10 ** 6)),
+            "shape": draw(small_shapes(D, 4, 7, 5)), "padding": draw(st.sampled_from(["border", "zeros", "reflect", 0.5])),
+            "tshape": draw(st.sampled_from(["translation", "affine", "homogeneous", "flow"])), "centers": draw(st.booleans()),
+            "opt": draw(st.integers(0, 5)), "flag": draw(st.booleans()), "sigma": draw(st.sampled_from([0.7, 1.0, 1.5])),
+            "mode": draw(st.sampled_from(FD_MODES)), "steps": draw(st.integers(0, 4)), "ac": draw(st.booleans()),
+            "source": draw(st.sampled_from(["same", "same", "other"]))}
+    if entry.split(".")[0] in ("AlignImage", "TransformImage"):
+        case["grid"] = draw(small_grids(D))
+        if case["source"] == "other":
+            case["grid2"] = draw(small_grids(D))
+    return case
+
+
+def build_module_probe(case) -> Probe:
+    import deepali.modules as M
+    from deepali.core import functional as U
+
+    entry, D, N, C, key, shape = case["entry"], case["D"], case["N"], case["C"], case["key"], tuple(case["shape"])
+    name, _, wrt = entry.partition(".")
+    opt, flag = case["opt"], case["flag"]
+    labels = [f"D={D}"]
+    if name in ("AlignImage", "TransformImage"):
+        g = case["grid"]
+        target = make_grid(g)
+        if case["source"] == "other":  # source image on a grid of another size covering about the same region
+            g2 = dict(g, size=list(case["grid2"]["size"]))
+            g2["spacing"] = [s * n / n2 for s, n, n2 in zip(g["spacing"], g["size"], g2["size"])]
+            source = make_grid(g2)
+        else:
+            source = target
+        ts = case["tshape"]
+        if name == "AlignImage" and ts == "flow":
+            ts = "homogeneous"
+        if name == "TransformImage" and D == 2:
+            ts = "flow"  # a 3-dimensional tensor is taken for an unbatched 2D flow field (D, Y, X) by TransformImage.forward
+        mod = getattr(M, name)(target, source, padding=case["padding"], align_centers=case["centers"]).double()
+        img = noise((N, C) + tuple(source.shape), key + 211, 0.0, 1.0)
+        if ts == "flow":
+            t = noise((N, D) + tuple(target.shape), key + 212, -0.2, 0.2)
+        else:
+            cols = {"translation": 1, "affine": D, "homogeneous": D + 1}[ts]
+            t = (torch.eye(D, cols, dtype=torch.float64).unsqueeze(0).repeat(N, 1, 1) + noise((N, D, cols), key + 213, -0.15, 0.15)
+                 if cols > 1 else noise((N, D, 1), key + 213, -0.2, 0.2))
+        labels += [f"transform={ts}", f"pad={case['padding']}", f"source={case['source']}", f"centers={case['centers']}"]
+        if wrt == "transform":  # moves interpolation positions: generic positions, protected by the reliability test
+            t = _leaf(t)
+            return Probe([t], lambda: mod(t, img), 0.2, stateful=True, labels=labels)
+        x = _leaf(img)
+        return Probe([x], lambda: mod(t, x), 1.0, stateful=True, labels=labels)
+    x = noise((N, C) + shape, key + 214, 0.0, 1.0)
+    if name in ("BlurImage", "FilterImage"):
+        pad = [None, "constant", "reflect", "replicate"][opt % 4]
+        if pad == "reflect" and D == 3:
+            pad = "replicate"  # reflection padding is documented for 1 and 2 spatial dimensions only
+        if name == "BlurImage":
+            sigma = min(case["sigma"], 1.0) if pad == "reflect" else case["sigma"]  # reflection needs radius < axis size (>= 4)
+            mod = M.BlurImage(sigma, padding=pad)
+        else:
+            kern = noise((3,) * (1 if flag else D), key + 215, 0.1, 1.0)
+            mod = M.FilterImage(kern, padding=pad)
+        mod = mod.double()
+        xl = _leaf(x)
+        return Probe([xl], lambda: mod(xl), 1.0, stateful=True, labels=labels + [f"pad={pad}"])
+    if name == "GaussianConv":
+        mod = M.GaussianConv(C, 3, case["sigma"], dim=D).double()
+        xl = _leaf(x)
+        return Probe([xl], lambda: mod(xl), 1.0, stateful=True, labels=labels)
+    if name == "Curl":
+        kw, mode = _deriv_kwargs(dict(case, spacing=[None, "scalar", "vector"][opt % 3], stride=1 + opt % 2,
+                                      sigma=None if flag else case["sigma"]), D)
+        mod = M.Curl(**kw)
+        u = _leaf(noise((N, D) + shape, key + 216, -0.3, 0.3))
+        return Probe([u], lambda: mod(u), 0.3, stateful=True, labels=labels + [f"mode={mode}"])
+    if name == "ExpFlow":  # the inverse() / inv copies of the layer and the forward(inverse=True) argument
+        base = M.ExpFlow(scale=[None, 0.5, 2.0][opt % 3], steps=case["steps"], align_corners=case["ac"])
+        mod = base.inv if flag else base.inverse()
+        u = _leaf(noise((N, D) + shape, key + 217, -0.3, 0.3))
+        inv_arg = opt > 2
+        return Probe([u], lambda: mod(u, inverse=inv_arg), 0.3, stateful=True, labels=labels + [f"steps={case['steps']}"])
+    xl = _leaf(x)
+    if name == "Pad":
+        mode = ["constant", "reflect", "replicate"][opt % 3]
+        if D == 3 and mode == "reflect":
+            mode = "replicate"
+        kw = dict(margin=1 + opt % 2) if flag else dict(padding=[1, 0] * D)
+        if mode == "constant":
+            kw["value"] = 0.5
+        mod = M.Pad(mode=mode, **kw)
+        return Probe([xl], lambda: mod(xl), 1.0, stateful=True, labels=labels + [f"mode={mode}"])
+    if name == "Narrow":
+        dim = 2 + opt % D
+        mod = M.Narrow(dim, 1, shape[dim - 2] - 2)
+        return Probe([xl], lambda: mod(xl) * 1.0, 1.0, stateful=True, labels=labels)
+    if name in ("Reshape", "View"):
+        new = ((C,) + shape[:-2] + (-1,)) if flag else (N * C, -1)  # without / with the batch dimension
+        mod = getattr(M, name)(new)
+        return Probe([xl], lambda: mod(xl) * 1.0, 1.0, stateful=True, labels=labels)
+    if name == "LambdaLayer":
+        mod = M.LambdaLayer(lambda t: U.avg_pool(t, 2).tanh())
+        return Probe([xl], lambda: mod(xl), 1.0, stateful=True, labels=labels)
+    if name == "GetItem":
+        mod = M.GetItem("b" if flag else 1)
+        return Probe([xl], lambda: mod({"a": xl.detach(), "b": xl.sin()} if flag else [xl.detach(), xl.sin()]), 1.0, stateful=True,
+                     labels=labels)
+    raise KeyError(entry)
+
+
+def run_module(case):
+    return check_probe(case["entry"], build_module_probe(case), case["key"])
+
+
+# =======================================================================================
+# facet 12: where the parameters come from (callable / plain tensor / linked inverse) and composite containers
+
+MEMBERS = {
+    "Translation": [("params", "translation")], "EulerRotation": [("params", "euler")], "QuaternionRotation": [("params", "quaternion")],
+    "IsotropicScaling": [("params", "iso")], "AnisotropicScaling": [("params", "aniso")], "Shearing": [("params", "shear")],
+    "HomogeneousTransform": [("params", "hom")],
+    "RigidTransform": [("rotation", "euler"), ("translation", "translation")],
+    "RigidQuaternionTransform": [("rotation", "quaternion"), ("translation", "translation")],
+    "SimilarityTransform": [("scaling", "iso"), ("rotation", "euler"), ("translation", "translation")],
+    "AffineTransform": [("scaling", "aniso"), ("rotation", "euler"), ("translation", "translation")],
+    "FullAffineTransform": [("scaling", "aniso"), ("shearing", "shear"), ("rotation", "euler"), ("translation", "translation")],
+    "DisplacementFieldTransform": [("params", "field")], "StationaryVelocityFieldTransform": [("params", "field")],
+    "FreeFormDeformation": [("params", "field")], "StationaryVelocityFreeFormDeformation": [("params", "field")],
+}
+COMBOS = {
+    "affine+svf": ["AffineTransform", "StationaryVelocityFieldTransform"],
+    "ffd+ddf": ["FreeFormDeformation", "DisplacementFieldTransform"],
+    "translation+ffd+rotation": ["Translation", "FreeFormDeformation", "EulerRotation"],
+    "svffd+shearing": ["StationaryVelocityFreeFormDeformation", "Shearing"],
+    "scaling+shearing+rotation+translation": ["AnisotropicScaling", "Shearing", "EulerRotation", "Translation"],
+    "rigid+similarity": ["RigidTransform", "SimilarityTransform"],
+    "rigid+ddf": ["RigidTransform", "DisplacementFieldTransform"],
+}
+CONTAINER_METHODS = ["call", "call_grid", "disp", "inverse_call", "points.params", "points.points", "tensor", "image"]
+GENERIC_MODELS = ["Affine", "Affine o SVF", "SVF o Affine", "Affine o FFD", "DDF", "SVFFD o Affine", "DDF o Affine", "FFD"]
+GENERIC_AFFINE = ["TRS", "A", "TKRS", "TQS", "T o R", "SKT", "R", "TRKS"]
+SOURCED_ENTRIES = ([f"{c}.{s}" for c in LINEAR + NONRIGID for s in ("callable", "tensor")]
+                   + [f"{c}.{s}" for c in LINEAR + NONRIGID if c not in NO_INVERSE for s in ("linked", "linked_callable")]
+                   + [f"{k}[{c}]" for k in ("SequentialTransform", "MultiLevelTransform") for c in COMBOS]
+                   + [f"GenericSpatialTransform.{s}" for s in ("parameters", "dict", "callable", "linked")])
+
+
+@st.composite
+def sourced_cases(draw, entry=None):
+    entry = entry or draw(st.sampled_from(SOURCED_ENTRIES))
+    cls = entry.split(".")[0].split("[")[0]
+    combo = COMBOS.get(entry[entry.index("[") + 1:-1]) if "[" in entry else None
+    names = combo or [cls]
+    only3 = any(n in ONLY3D for n in names)
+    D = 3 if only3 else draw(gen.dims())
+    need_ac = any(n in BSPLINE for n in names) or cls == "GenericSpatialTransform"
+    case = {
+        "entry": entry, "D": D, "grid": draw(small_grids(D, ac=True if need_ac else None)), "N": draw(st.integers(1, 2)),
+        "key": draw(st.integers(0, 10 ** 6)), "M": draw(st.integers(1, 5)), "dtype": "float64", "amp": draw(gen.qfloat(0.05, 0.3, 0.01)),
+        "stride": draw(st.sampled_from([1, 1, 2])), "steps": draw(st.integers(1, 4)), "vscale": draw(st.sampled_from([None, 0.5, 1.0])),
+        "ffd_stride": draw(st.sampled_from([2, 3])), "transpose": draw(st.booleans()),
+        "order": draw(st.sampled_from([None, "XYZ", "ZYX", "ZXZ", "YXZ"])),
+        "method": draw(st.sampled_from(["call", "disp", "inverse_call"])), "cmethod": draw(st.sampled_from(CONTAINER_METHODS)),
+        "variant": draw(st.sampled_from(["ctor", "data_"])), "inv": draw(st.booleans()), "batch_points": draw(st.booleans()),
+        "axes": draw(st.sampled_from(["world", "grid", "cube", "cube_corners"])),
+        "to_axes": draw(st.sampled_from(["world", "grid", "cube", "cube_corners"])),
+        "model": draw(st.sampled_from(GENERIC_MODELS)), "affine_model": draw(st.sampled_from(GENERIC_AFFINE)),
+        "rotation_model": draw(st.sampled_from(["ZXZ", "XZX", "XYZ", "ZYX"])), "cps": draw(st.sampled_from([1, 2])),
+        "flip": draw(st.booleans()), "padding": draw(st.sampled_from(["border", "zeros"])), "fresh": draw(st.booleans()),
+    }
+    return case
+
+
+class _ParamNet(torch.nn.Module):
+    """Stand-in for a network that predicts transformation parameters from a conditioning tensor c of shape (N, K):
+    p = b + sum_k c[:, k] * W[k], with its own Parameters b (generic values of the parameter kind) and W."""
+
+    def __init__(self, b: torch.Tensor, key: int, amp: float, cdim: int = 2):
+        super().__init__()
+        self.b = torch.nn.Parameter(b.detach().clone())
+        self.W = torch.nn.Parameter(noise((cdim,) + tuple(b.shape[1:]), key, -amp, amp, b.dtype))
+
+    def forward(self, c):
+        return self.b + torch.tensordot(c, self.W, dims=1)
+
+
+class _DictNet(torch.nn.Module):
+    """Callable for GenericSpatialTransform: returns a Mapping name -> parameters predicted by one _ParamNet per member."""
+
+    def __init__(self, nets):
+        super().__init__()
+        self.nets = torch.nn.ModuleDict(nets)
+
+    def forward(self, c):
+        return {k: n(c) for k, n in self.nets.items()}
+
+
+def _nonrigid_kwargs(cls, case):
+    if cls in ("DisplacementFieldTransform", "StationaryVelocityFieldTransform"):
+        kw = {"stride": case["stride"]} if case["stride"] != 1 else {}
+    else:
+        kw = dict(stride=case["ffd_stride"], transpose=case["transpose"])
+    if cls in SVF:
+        kw.update(steps=case["steps"], scale=case["vscale"])
+    return kw
+
+
+def _raw_values(cls, kind, grid, case, key):
+    """Generic values of one parameter tensor in the units the transformation uses for non-Parameter tensors (radians, factors)."""
+    import deepali.spatial as S
+
+    D, N = grid.ndim, case["N"]
+    if kind == "hom":
+        return torch.eye(D, D + 1, dtype=torch.float64).unsqueeze(0).repeat(N, 1, 1) + noise((N, D, D + 1), key + 7, -0.2, 0.2)
+    if kind == "field":
+        shape = getattr(S, cls)(grid, params=None, **_nonrigid_kwargs(cls, case)).data_shape
+        return noise((N,) + tuple(shape), key + 8, -case["amp"], case["amp"])
+    return _elementary(kind, N, D, key, torch.float64).detach().clone()
+
+
+def build_sourced(cls, grid, case, source, key):
+    """Transformation of class `cls` whose parameters come from `source`; returns (transform, leaves, prepare) where
+    prepare() must be called before each evaluation (sets the parameter tensors for the 'tensor' / data_ variant)."""
+    import deepali.spatial as S
+
+    N = case["N"]
+    T = getattr(S, cls)
+    kw = _nonrigid_kwargs(cls, case) if cls in NONRIGID else {}
+    if cls == "EulerRotation":
+        kw["order"] = case["order"]
+    spec = MEMBERS[cls]
+    raws = [_raw_values(cls, kind, grid, case, key + 31 * i) for i, (_, kind) in enumerate(spec)]
+    if source == "callable":
+        nets = [_ParamNet(r, key + 57 + i, 0.1 * (case["amp"] if kind == "field" else 1.0)) for i, (r, (_, kind)) in enumerate(zip(raws, spec))]
+        t = T(grid, **{arg: net for (arg, _), net in zip(spec, nets)}, **kw).double()
+        c = _leaf(noise((N, 2), key + 59, -1.0, 1.0))
+        t.condition_(c)
+        leaves = [p for net in nets for p in net.parameters()] + [c]
+        return t, leaves, (lambda: None)
+    if source == "tensor":
+        zs = [_leaf(r) for r in raws]
+        if case["variant"] == "ctor":  # a plain tensor (e.g. inferred by a network) given at construction
+            t = T(grid, **{arg: z for (arg, _), z in zip(spec, zs)}, **kw).double()
+            return t, zs, (lambda: None)
+        t = T(grid, **{arg: None for arg, _ in spec}, **kw).double()
+        members = list(t.transforms()) if isinstance(t, S.CompositeTransform) else [t]
+
+        def prepare():  # the documented way to set parameters predicted elsewhere: data_() with a (non-leaf) tensor
+            for m, z in zip(members, zs):
+                m.data_(z * 1.0)
+
+        return t, zs, prepare
+    raise KeyError(source)
+
+
+def _points_for(case, grid, g, dt=torch.float64):
+    N, M, key = case["N"], case["M"], case["key"]
+    NP = N if case["batch_points"] else 1
+    idx = safe_index_coords((NP, M), list(g["size"]), key + 21)
+    return torch.tensor(index_to_cube(idx, list(g["size"]), g["ac"]), dtype=dt)
+
+
+def build_sourced_probe(case) -> Probe:
+    import deepali.spatial as S
+    from deepali.core import Axes
+
+    entry, g, D, N, key = case["entry"], case["grid"], case["D"], case["N"], case["key"]
+    grid = make_grid(g)
+    x = _points_for(case, grid, g)
+    labels = [f"D={D}", f"N={N}"]
+    head = entry.split(".")[0]
+    # ---- containers with non-rigid / nested members
+    if "[" in entry:
+        container, combo = head[:head.index("[")], head[head.index("[") + 1:-1]
+        members = [build_transform(c, grid, dict(case, key=key + 1000 * (i + 1), amp=case["amp"] * (0.5 if i else 1.0)))
+                   for i, c in enumerate(COMBOS[combo])]
+        t = getattr(S, container)(grid, *members).double()
+        params = list(t.parameters())
+        method = case["cmethod"]
+        invertible = container == "SequentialTransform" and not any(c in NO_INVERSE for c in COMBOS[combo])
+        if method == "inverse_call" and not invertible:
+            method = "call"
+        labels += [f"m={method}", f"combo={combo}"]
+        scale = 0.3 if all(c in LINEAR for c in COMBOS[combo]) else case["amp"]
+        return _method_probe(t, params, method, case, grid, g, x, scale, labels)
+    # ---- configurable generic transformation
+    if head == "GenericSpatialTransform":
+        return _generic_probe(case, grid, g, x, labels)
+    cls, source = entry.split(".")
+    labels += [f"T={cls}", f"source={source}"]
+    scale = 0.3 if cls in LINEAR else case["amp"]
+    method = case["method"]
+    if method == "inverse_call" and cls in NO_INVERSE:
+        method = "disp"
+    if source in ("callable", "tensor"):
+        t, leaves, prepare = build_sourced(cls, grid, case, source, key)
+        labels += [f"m={method}"] + ([f"variant={case['variant']}"] if source == "tensor" else [])
+        if method == "call":
+            return Probe(leaves, lambda: (prepare(), t(x))[1], scale, stateful=True, labels=labels)
+        if method == "disp":
+            return Probe(leaves, lambda: (prepare(), t.update().disp())[1], scale, stateful=True, labels=labels)
+        return Probe(leaves, lambda: (prepare(), t.inverse()(x))[1], scale, stateful=True, labels=labels)
+    # ---- linked inverse, created ONCE: its update() must fetch the current parameters of the transformation it is linked to
+    if source == "linked":
+        t = build_transform(cls, grid, case)
+        leaves = list(t.parameters())
+    else:
+        t, leaves, _ = build_sourced(cls, grid, case, "callable", key)
+    inv = t.inv if case["inv"] else t.inverse(link=True)
+    fresh = bool(case.get("fresh"))
+    if fresh:
+        method = "disp"
+    labels += [f"fresh_inverse={fresh}", f"m={'call' if method != 'disp' else 'disp'}", f"inv_property={case['inv']}"]
+
+    def ev():
+        t.update()  # e.g. evaluates the callable; the linked inverse reads the buffered prediction
+        if fresh:  # inverse obtained after the update with its buffers derived from those of the transformation
+            i2 = t.inverse(link=True, update_buffers=True)
+            return (i2 if cls in SVF else i2.update()).disp()
+        return inv.update().disp() if method == "disp" else inv(x)
+
+    return Probe(leaves, ev, scale, stateful=True, labels=labels)
+
+
+def _method_probe(t, params, method, case, grid, g, x, scale, labels, prepare=lambda: None):
+    import deepali.spatial as S
+    from deepali.core import Axes
+
+    D, key = case["D"], case["key"]
+    if method == "call":
+        return Probe(params, lambda: (prepare(), t(x))[1], scale, stateful=True, labels=labels)
+    if method == "call_grid":
+        xg = grid.coords(dtype=torch.float64).unsqueeze(0)
+        return Probe(params, lambda: (prepare(), t(xg, grid=True))[1], scale, stateful=True, labels=labels)
+    if method == "disp":
+        return Probe(params, lambda: (prepare(), t.update().disp())[1], scale, stateful=True, labels=labels)
+    if method == "tensor":
+        return Probe(params, lambda: (prepare(), t.update().tensor())[1], scale, stateful=True, labels=labels)
+    if method == "inverse_call":
+        return Probe(params, lambda: (prepare(), t.inverse()(x))[1], scale, stateful=True, labels=labels)
+    if method == "image":
+        it = S.ImageTransformer(t, padding=case["padding"]).double()
+        img = noise((case["N"], 1) + tuple(grid.shape), key + 31, 0.0, 1.0)
+        return Probe(params, lambda: (prepare(), it(img))[1], scale, stateful=True, labels=labels)
+    m = ref.GridModel.from_desc(g)
+    axes, to_axes = case["axes"], case["to_axes"]
+    idx = safe_index_coords(tuple(x.shape[:-1]), list(g["size"]), key + 21)
+    pts = torch.tensor(m.points(idx, "grid", axes), dtype=torch.float64)
+    kw = dict(axes=Axes(axes), to_axes=Axes(to_axes))
+    labels = labels + [f"{axes}->{to_axes}"]
+    if method == "points.params":
+        return Probe(params, lambda: (prepare(), t.update().points(pts, **kw))[1], scale, stateful=True, labels=labels)
+    pl = _leaf(pts)
+    xs = float(np.abs(m.matrix("grid", axes)[:, : D]).max()) if axes != "grid" else 1.0
+    return Probe([pl], lambda: (prepare(), t.update().points(pl, **kw))[1], xs, stateful=True, labels=labels)
+
+
+_GENERIC_KIND = {"affine": "hom", "shearing": "shear", "translation": "translation", "rotation": "euler", "scaling": "aniso",
+                 "quaternion": "quaternion", "nonrigid": "field"}
+
+
+def _generic_probe(case, grid, g, x, labels) -> Probe:
+    import deepali.spatial as S
+
+    D, N, key = case["D"], case["N"], case["key"]
+    source = case["entry"].split(".")[1]
+    model, am = case["model"], case["affine_model"]
+    if source == "linked":  # the displacement field / free-form deformation models have no inverse
+        model = model.replace("DDF", "SVF").replace("SVFFD", "#").replace("FFD", "SVFFD").replace("#", "SVFFD")
+    if D == 2 and "Q" in am:
+        am = am.replace("Q", "R")
+    if source == "callable":  # GenericSpatialTransform._data() has no 'shearing' entry: a callable cannot provide these parameters
+        am = am.replace("K", "")
+    flip = bool(case["flip"] and source == "callable")
+    rm = case["rotation_model"]
+    if flip and rm not in ("ZXZ", "XZX"):
+        rm = "ZXZ"  # euler_rotation_angles (used to flip the rotation) implements these orders only
+    config = S.TransformConfig(transform=model, affine_model=am, rotation_model=rm,
+                               control_point_spacing=case["cps"], scaling_and_squaring_steps=case["steps"],
+                               flip_grid_coords=flip)
+    labels += [f"model={model}", f"affine={am}", f"source={source}", f"flip={config.flip_grid_coords}"]
+    proto = S.GenericSpatialTransform(grid, params=source in ("parameters", "linked"), config=config)
+    names = [n for n, _ in proto.named_transforms()]
+    raws = {}
+    for i, (n, m) in enumerate(proto.named_transforms()):
+        kind = _GENERIC_KIND[n]
+        if kind == "field":
+            raws[n] = noise((N,) + tuple(m.data_shape), key + 8, -case["amp"], case["amp"])
+        else:
+            raws[n] = _raw_values(type(m).__name__, kind, grid, case, key + 31 * i)
+    nonrigid = [c for c in model.split(" o ") if c != "Affine"]
+    invertible = not any(c in ("DDF", "FFD") for c in nonrigid)
+    method = case["method"]
+    if method == "inverse_call" and not invertible:
+        method = "disp"
+    scale = case["amp"] if nonrigid else 0.3
+    if source in ("parameters", "linked"):
+        t = proto.double()
+        with torch.no_grad():
+            for n, m in t.named_transforms():
+                if raws[n].shape[0] != m.params.shape[0]:
+                    m.data_(torch.nn.Parameter(raws[n]))
+                else:
+                    m.params.copy_(raws[n])
+        leaves = list(t.parameters())
+        if source == "linked":
+            inv = t.inv if case["inv"] else t.inverse(link=True)
+            labels.append(f"m={'disp' if method == 'disp' else 'call'}")
+
+            def ev():
+                t.update()
+                return inv.update().disp() if method == "disp" else inv(x)
+
+            return Probe(leaves, ev, scale, stateful=True, labels=labels)
+    elif source == "dict":
+        zs = {n: _leaf(r) for n, r in raws.items()}
+        t = S.GenericSpatialTransform(grid, params=zs, config=config).double()
+        leaves = [zs[n] for n in names]
+    else:
+        nets = {n: _ParamNet(raws[n], key + 57 + i, 0.1 * (case["amp"] if n == "nonrigid" else 1.0)) for i, n in enumerate(names)}
+        net = _DictNet(nets).double()
+        t = S.GenericSpatialTransform(grid, params=net, config=config).double()
+        c = _leaf(noise((N, 2), key + 59, -1.0, 1.0))
+        t.condition_(c)
+        leaves = list(net.parameters()) + [c]
+    labels.append(f"m={method}")
+    return _method_probe(t, leaves, method, case, grid, g, x, scale, labels)
+
+
+def run_sourced(case):
+    return check_probe(case["entry"], build_sourced_probe(case), case["key"])
+
+
+# =======================================================================================
+# completeness of the entry table: every public name of the packages named by the property has an entry or a justified exclusion
+
+_CONST = "creates a constant tensor / object (no tensor argument that can carry a gradient)"
+_ABSTRACT = "abstract base class / mix-in without an operation of its own (its concrete subclasses are entries)"
+_PREDICATE = "predicate / string / configuration helper (no tensor operation)"
+EXCLUDED = {
+    "deepali.losses.functional": {},
+    "deepali.losses": {
+        "BSplineLoss": _ABSTRACT, "DisplacementLoss": _ABSTRACT, "NormalizedPairwiseImageLoss": _ABSTRACT, "PairwiseImageLoss": _ABSTRACT,
+        "ParamsLoss": _ABSTRACT, "PointSetDistance": _ABSTRACT, "RegistrationLoss": _ABSTRACT,
+        "RegistrationLosses": "type alias", "RegistrationResult": "type alias", "is_pairwise_image_loss": _PREDICATE,
+        "is_displacement_loss": _PREDICATE, "is_pointset_distance": _PREDICATE, "create_loss": "factory returning one of the entry classes",
+        "new_loss": "factory returning one of the entry classes"},
+    "deepali.core.functional": {
+        "as_one_hot_tensor": "integer label input, one-hot output: piecewise constant by definition",
+        "round_decimals": "rounding: zero gradient by definition (C20 asserts that it stays OFF the differentiable paths)",
+        "threshold": "boolean output", "unravel_coords": "integer index arithmetic", "unravel_index": "integer index arithmetic",
+        "multinomial": "random integer sampling", "euler_rotation_order": _PREDICATE, "identity_transform": _CONST,
+        "bspline_interpolation_weights": _CONST, "cubic_bspline_control_point_grid": _CONST, "cubic_bspline_control_point_grid_size": _CONST,
+        "circle_image": _CONST, "cshape_image": _CONST, "empty_image": _CONST, "grid_image": _CONST, "ones_image": _CONST,
+        "zeros_image": _CONST, "zeros_flow": _CONST, "closest_point_indices": "integer output (indices)",
+        "conv_mode": _PREDICATE, "pad_mode": _PREDICATE},
+    "deepali.modules": {
+        "DeviceProperty": _ABSTRACT, "ReprWithCrossReferences": _ABSTRACT, "LambdaFunc": "type alias",
+        "ToImmutableOutput": "container conversion (tuples / named tuples), tensors are passed through untouched",
+        "remove_layers_in_state_dict": "state dict utility", "rename_layers_in_state_dict": "state dict utility"},
+    "deepali.spatial": {
+        "CompositeTransform": _ABSTRACT, "DenseVectorFieldTransform": _ABSTRACT, "BSplineTransform": _ABSTRACT, "LinearTransform": _ABSTRACT,
+        "NonRigidTransform": _ABSTRACT, "ParametricTransform": _ABSTRACT, "SpatialTransform": _ABSTRACT, "SpatialTransformer": _ABSTRACT,
+        "InvertibleParametricTransform": _ABSTRACT, "ReadOnlyParameters": "exception type", "TransformConfig": _PREDICATE,
+        "affine_first": _PREDICATE, "has_affine_component": _PREDICATE, "has_nonrigid_component": _PREDICATE,
+        "is_linear_transform": _PREDICATE, "is_nonrigid_transform": _PREDICATE, "is_spatial_transform": _PREDICATE,
+        "nonrigid_components": _PREDICATE, "transform_components": _PREDICATE,
+        "new_spatial_transform": "factory returning one of the entry classes",
+        "ImageTransform": "deprecated empty subclass of ImageTransformer (an entry)",
+        "LINEAR_TRANSFORMS": "tuple of names", "NONRIGID_TRANSFORMS": "tuple of names"},
+}
+
+
+def _entry_names():
+    import re
+
+    names = set()
+    for entries in ALL_ENTRIES.values():
+        for e in entries:
+            names.update(t for t in re.split(r"[.\[\]]", e) if t)
+    names.update(LOSS_MODULES.values())
+    names.update(c for combo in COMBOS.values() for c in combo)
+    if any(".pointset." in e for e in TRANSFORM_ENTRIES):  # the method token of the transforms facet
+        names.add("PointSetTransformer")
+    return names
+
+
+def uncovered_names():
+    """Public names of the packages named by property C20 that have neither a table entry (directly, or as an alias of an
+    entry: same object) nor a justified exclusion."""
+    import importlib
+    import inspect
+
+    names = _entry_names()
+    missing = []
+    for modname, excluded in EXCLUDED.items():
+        mod = importlib.import_module(modname)
+        objs = [getattr(mod, n) for n in names if hasattr(mod, n)]
+        for n in mod.__all__:
+            obj = getattr(mod, n)
+            if n in names or n in excluded or any(obj is o for o in objs):
+                continue
+            missing.append(f"{modname}.{n}")
+    # every public class defined in the deepali.losses sub-modules (also those not re-exported, e.g. GradLoss)
+    import deepali.losses as LM
+
+    for sub in ("base", "bspline", "flow", "image", "params", "pointset"):
+        mod = importlib.import_module(f"deepali.losses.{sub}")
+        covered = [getattr(mod, k) for k in names if hasattr(mod, k)]
+        for n, cls in inspect.getmembers(mod, inspect.isclass):
+            if cls.__module__ != mod.__name__ or n.startswith("_"):
+                continue
+            if n in names or n in EXCLUDED["deepali.losses"] or any(cls is o for o in covered):
+                continue
+            missing.append(f"deepali.losses.{sub}.{n}")
+    return missing
+
+
+class _StaleAfterStep(torch.nn.Module):
+    """Self-test module: the grad-mode forward multiplies with a snapshot of the parameter that is taken once and never
+    refreshed; consistent with finite differences until the parameter is changed by an optimiser step."""
+
+    def __init__(self, p):
+        super().__init__()
+        self.p = p
+        self.stale = None
+        self.fresh = None
+
+    def forward(self):
+        if torch.is_grad_enabled():
+            self.fresh = self.p.detach().clone()
+            if self.stale is None:
+                self.stale = self.fresh
+            return self.p.sin() * self.stale.sum()
+        return self.p.sin() * self.fresh.sum()
 
 
 # =======================================================================================
@@ -1420,7 +2680,9 @@ def _facet(name, run, strategy_fn, entries, what, quick, thorough, floor_quick=3
 
 ALL_ENTRIES = {"transforms": TRANSFORM_ENTRIES, "image_transformer": IT_ENTRIES, "sampling": SAMPLING_ENTRIES, "flow_ops": FLOW_ENTRIES,
                "bspline": BSPLINE_ENTRIES, "rotations_and_grid_maps": ROT_ENTRIES, "similarity_losses": SIM_ENTRIES,
-               "regularisers": REG_ENTRIES}
+               "regularisers": REG_ENTRIES, "loss_modules": LOSS_MODULE_ENTRIES,
+               "pointset_distances": POINTSET_ENTRIES, "core_functional": CORE_ENTRIES, "modules": MODULE_ENTRIES,
+               "parameter_sources_and_composites": SOURCED_ENTRIES}
 
 FACETS = [
     _facet("transforms", run_transforms, transform_cases, TRANSFORM_ENTRIES,
@@ -1444,4 +2706,26 @@ FACETS = [
     _facet("regularisers", run_regulariser, regulariser_cases, REG_ENTRIES,
            "regularisation losses w.r.t. the vector field(s) (TV / p=1 on strictly monotone fields)", quick=180, thorough=3000,
            floor_quick=6),
+    _facet("loss_modules", run_loss_module, loss_module_cases, LOSS_MODULE_ENTRIES,
+           "loss module classes of deepali.losses (image, flow, bspline, params) called as modules (one instance, constructor "
+           "arguments generated, masks to forward) w.r.t. source and target / field / parameters; PatchwiseImageLoss w.r.t. both "
+           "volumes", quick=200, thorough=3000, floor_quick=3),
+    _facet("pointset_distances", run_pointset, pointset_cases, POINTSET_ENTRIES,
+           "closest point / landmark distances w.r.t. the first and every later point set (unique nearest neighbours with margin, "
+           "no zero distance), also with a later set produced by a transformation being optimised", quick=150, thorough=2500,
+           floor_quick=4),
+    _facet("core_functional", run_core, core_cases, CORE_ENTRIES,
+           "the remaining differentiable functions of deepali.core.functional.__all__ (tensor/math helpers, homogeneous "
+           "transform helpers, pooling, convolution, cropping/padding, pyramids, resampling, normalisation with explicit bounds, "
+           "point maps) w.r.t. every tensor argument that can carry a gradient", quick=300, thorough=5000, floor_quick=6),
+    _facet("modules", run_module, module_cases, MODULE_ENTRIES,
+           "layers of deepali.modules not covered elsewhere (AlignImage / TransformImage w.r.t. the transform tensor and the image, "
+           "Blur/Filter/GaussianConv, Curl, Pad, Narrow, Reshape, View, LambdaLayer, GetItem, inverse copies of ExpFlow)",
+           quick=120, thorough=2000, floor_quick=4),
+    _facet("parameter_sources_and_composites", run_sourced, sourced_cases, SOURCED_ENTRIES,
+           "every transform class with parameters predicted by a callable module (gradient w.r.t. the callable's own Parameters "
+           "and its conditioning input), given as plain tensors (constructor / data_()), and its linked inverse created once "
+           "(inverse(link=True) / .inv); SequentialTransform / MultiLevelTransform with non-rigid and nested members (call, grid "
+           "call, disp, tensor, inverse, points, ImageTransformer); GenericSpatialTransform (8 models x 8 affine models; Parameters, "
+           "dict of tensors, callable returning a dict, linked inverse)", quick=300, thorough=6000, floor_quick=4, quick_shards=4),
 ]
